@@ -3,7 +3,9 @@ import SaphyrVerif.Lemmas.C13_Layout
 C13 proof machinery, part 2: the EMITTER INVARIANT.  For every value of the fragment and every state
 that satisfies the context predicate of a position (`ValCtx`: right after `key:`; `ItemCtx`: right
 after `- `; `LineCtx`: at the start of a line), the state machine `ser` succeeds, appends exactly
-the text of the layout function, and re-establishes the flags the next sibling relies on.
+the text of the layout function, and re-establishes the flags the next sibling relies on.  Columns:
+a line at serializer depth `d` is indented by `indent_step * d + indent_shift` blanks (`Col`); the
+contexts carry the column of the enclosing keys / dashes, for every `indent_step ≥ 1`.
 -/
 set_option linter.unusedSimpArgs false
 set_option linter.unusedVariables false
@@ -13,43 +15,77 @@ open SaphyrVerif
 
 /-- flags that never change inside the fragment -/
 structure Base (s : St) : Prop where
-  depth : s.depth = 0
   inFlow : s.inFlow = 0
   pendingFlow : s.pendingFlow = none
   pss : s.pendingStrStyle = none
   pic : s.pendingInlineComment = none
 
-/-- right after `key:` of a mapping whose keys are at depth `m` -/
-structure ValCtx (s : St) (m : Nat) : Prop extends Base s where
+/-- a line at serializer depth `d` starts at column `c` (in state `s`) -/
+def Col (o : Opts) (s : St) (d c : Nat) : Prop := ((o.indentStep * d : Nat) : Int) + s.indentShift = (c : Int)
+
+/-- right after `key:` of a mapping whose keys are at depth `m`, column `c` -/
+structure ValCtx (o : Opts) (s : St) (m c : Nat) : Prop extends Base s where
   als : s.atLineStart = false
   psc : s.pendingSpaceAfterColon = true
   pim : s.pendingInlineMap = false
   add : s.afterDashDepth = none
-  cmd : s.currentMapDepth = some m ∨ (s.currentMapDepth = none ∧ m = 0)
+  cmd : s.currentMapDepth = some m ∨ (s.currentMapDepth = none ∧ m = 0 ∧ s.depth = 0)
+  col : Col o s m c
 
-/-- right after `- ` of a sequence whose dashes are at depth `d` -/
-structure ItemCtx (s : St) (d : Nat) : Prop extends Base s where
+/-- right after `- ` of a sequence whose dashes are at depth `d`, column `c` -/
+structure ItemCtx (o : Opts) (s : St) (d c : Nat) : Prop extends Base s where
   als : s.atLineStart = false
   psc : s.pendingSpaceAfterColon = false
   pim : s.pendingInlineMap = true
   add : s.afterDashDepth = some d
+  col : Col o s d c
 
 /-- at the start of a line, nothing pending -/
 structure LineCtx (s : St) : Prop extends Base s where
   als : s.atLineStart = true
   psc : s.pendingSpaceAfterColon = false
 
-/-- what a value leaves behind: a finished line, nothing pending, `current_map_depth` restored -/
+/-- what a value leaves behind: a finished line, nothing pending, `current_map_depth` and
+`indent_shift` restored -/
 structure Post (s s' : St) : Prop extends Base s' where
   als : s'.atLineStart = true
   psc : s'.pendingSpaceAfterColon = false
   cmd : s'.currentMapDepth = s.currentMapDepth
+  shift : s'.indentShift = s.indentShift
 
 theorem LineCtx.ofPost {s s' : St} (h : Post s s') : LineCtx s' :=
-  { depth := h.depth, inFlow := h.inFlow, pendingFlow := h.pendingFlow, pss := h.pss, pic := h.pic,
-    als := h.als, psc := h.psc }
+  { toBase := h.toBase, als := h.als, psc := h.psc }
 
 variable {o : Opts} {f : ScalarFns}
+
+/-! ### columns -/
+
+theorem Col.of_shift {s s' : St} {d c : Nat} (h : Col o s d c) (hs : s'.indentShift = s.indentShift) : Col o s' d c := by
+  unfold Col at *; rw [hs]; exact h
+
+theorem Col.succ {s : St} {d c : Nat} (h : Col o s d c) : Col o s (d + 1) (c + o.indentStep) := by
+  unfold Col at *
+  have : ((o.indentStep * (d + 1) : Nat) : Int) = ((o.indentStep * d : Nat) : Int) + (o.indentStep : Int) := by
+    rw [Nat.mul_succ]; simp
+  rw [this]; push_cast at h ⊢; omega
+
+/-- the columns after `shift_for_inline_node`: one depth level deeper = two columns after the indicator -/
+theorem Col.inline {s : St} {d c : Nat} (h : Col o s d c) : Col o (shiftForInlineNode o s) (d + 1) (c + 2) := by
+  unfold Col at *
+  have : ((o.indentStep * (d + 1) : Nat) : Int) = ((o.indentStep * d : Nat) : Int) + (o.indentStep : Int) := by
+    rw [Nat.mul_succ]; simp
+  simp only [shiftForInlineNode]
+  rw [this]; push_cast at h ⊢; omega
+
+/-- `indent_cols(d)` in any state with the shift of `s` -/
+theorem indentCols_col {s : St} {d c : Nat} (h : Col o s d c) (st : St) (hst : st.indentShift = s.indentShift) :
+    indentCols o st d = c := by
+  unfold Col at h
+  simp only [indentCols, hst, h, Int.toNat_natCast]
+
+theorem restoreShift_some (σ : Int) (s : St) : restoreShift (some σ) s = { s with indentShift := σ } := rfl
+@[simp] theorem restoreShift_none (s : St) : restoreShift none s = s := rfl
+@[simp] theorem shiftForInlineNode_out (s : St) : (shiftForInlineNode o s).out = s.out := rfl
 
 @[simp] theorem renderLines_nil : renderLines [] = [] := rfl
 @[simp] theorem renderLines_cons (l : Line) (ls : List Line) :
@@ -69,11 +105,6 @@ def GoodLines (s : St) (r : List Line × Bool) (s' : St) : Prop :=
   s'.out = s.out ++ renderLines r.1 ∧ s'.lastValueWasBlock = r.2 ∧ Post s s'
 
 /-! ### leaf tokens -/
-
-theorem serToken_wsp (tok : List Char) (s : St) :
-    serToken o tok (writeSpaceIfPending s) = serToken o tok s := by
-  unfold serToken writeSpaceIfPending
-  by_cases h : s.pendingSpaceAfterColon = true <;> simp [h, St.write]
 
 theorem isSafeStr_no_nl {s : List Char} (h : isSafeStr s = true) : s.contains '\n' = false := by
   cases s with
@@ -120,166 +151,193 @@ theorem serStr_safe (ho : FragOpts o) (hf : SafeContract f) {v : List Char} (hs 
   unfold serToken writeSpaceIfPending
   by_cases hpsc : s.pendingSpaceAfterColon = true <;> simp [hpsc, St.write, indentIfLineStart, writeIndent]
 
-
 /-- a leaf token in value position: ` tok` + line break -/
-theorem serToken_val (tok : List Char) {s : St} {m : Nat} (h : ValCtx s m) :
+theorem serToken_val (tok : List Char) {s : St} {m c : Nat} (h : ValCtx o s m c) :
     Good s (' ' :: tok, [], false) (.ok (serToken o tok s)) := by
   have := h.als; have := h.psc; have := h.inFlow; have := h.pic
   refine ⟨_, rfl, ?_, ?_, ?_⟩
   · simp [serToken, writeSpaceIfPending, indentIfLineStart, writeEndOfScalar, newline, St.write, *]
   · simp [serToken, writeSpaceIfPending, indentIfLineStart, writeEndOfScalar, newline, St.write, *]
   · constructor
-    · constructor <;> simp [serToken, writeSpaceIfPending, indentIfLineStart, writeEndOfScalar, newline, St.write, *, h.depth, h.pendingFlow, h.pss]
+    · constructor <;> simp [serToken, writeSpaceIfPending, indentIfLineStart, writeEndOfScalar, newline, St.write, *, h.pendingFlow, h.pss]
     all_goals simp [serToken, writeSpaceIfPending, indentIfLineStart, writeEndOfScalar, newline, St.write, *]
 
 /-- a leaf token right after `- ` -/
-theorem serToken_item (tok : List Char) {s : St} {d : Nat} (h : ItemCtx s d) :
+theorem serToken_item (tok : List Char) {s : St} {d c : Nat} (h : ItemCtx o s d c) :
     Good s (tok, [], false) (.ok (serToken o tok s)) := by
   have := h.als; have := h.psc; have := h.inFlow; have := h.pic
   refine ⟨_, rfl, ?_, ?_, ?_⟩
   · simp [serToken, writeSpaceIfPending, indentIfLineStart, writeEndOfScalar, newline, St.write, *]
   · simp [serToken, writeSpaceIfPending, indentIfLineStart, writeEndOfScalar, newline, St.write, *]
   · constructor
-    · constructor <;> simp [serToken, writeSpaceIfPending, indentIfLineStart, writeEndOfScalar, newline, St.write, *, h.depth, h.pendingFlow, h.pss]
+    · constructor <;> simp [serToken, writeSpaceIfPending, indentIfLineStart, writeEndOfScalar, newline, St.write, *, h.pendingFlow, h.pss]
     all_goals simp [serToken, writeSpaceIfPending, indentIfLineStart, writeEndOfScalar, newline, St.write, *]
 
-/-- a leaf token at a line start at depth 0 (the root) -/
-theorem serToken_line (ho : FragOpts o) (tok : List Char) {s : St} (h : LineCtx s) :
+/-- a leaf token at a line start at depth 0, column 0 (the root) -/
+theorem serToken_line (ho : FragOpts o) (tok : List Char) {s : St} (h : LineCtx s) (hd0 : s.depth = 0) (hcol : Col o s 0 0) :
     GoodLines s ([⟨0, tok⟩], false) (serToken o tok s) := by
-  have := h.als; have := h.psc; have := h.inFlow; have := h.pic; have := h.depth; have := ho.yaml12
+  have := h.als; have := h.psc; have := h.inFlow; have := h.pic; have := ho.yaml12
+  have hic := indentCols_col hcol
   refine ⟨?_, ?_, ?_⟩
   · by_cases hd : s.docStarted = true <;>
-      simp [serToken, writeSpaceIfPending, indentIfLineStart, writeIndent, writeEndOfScalar, newline, St.write, spaces, *]
+      simp [serToken, writeSpaceIfPending, indentIfLineStart, writeIndent, hic, writeEndOfScalar, newline, St.write, spaces, *]
   · by_cases hd : s.docStarted = true <;>
-      simp [serToken, writeSpaceIfPending, indentIfLineStart, writeIndent, writeEndOfScalar, newline, St.write, *]
+      simp [serToken, writeSpaceIfPending, indentIfLineStart, writeIndent, hic, writeEndOfScalar, newline, St.write, *]
   · constructor
     · constructor <;> (by_cases hd : s.docStarted = true <;>
-        simp [serToken, writeSpaceIfPending, indentIfLineStart, writeIndent, writeEndOfScalar, newline, St.write, *, h.depth, h.pendingFlow, h.pss])
+        simp [serToken, writeSpaceIfPending, indentIfLineStart, writeIndent, hic, writeEndOfScalar, newline, St.write, *, h.pendingFlow, h.pss])
     all_goals (by_cases hd : s.docStarted = true <;>
-      simp [serToken, writeSpaceIfPending, indentIfLineStart, writeIndent, writeEndOfScalar, newline, St.write, *])
+      simp [serToken, writeSpaceIfPending, indentIfLineStart, writeIndent, hic, writeEndOfScalar, newline, St.write, *])
+
 
 /-! ### sequence steps -/
 
-theorem spaces_col (ho : FragOpts o) (d : Nat) : spaces (o.indentStep * d) = spaces (col d) := by
-  simp [ho.indent, col]
-
 /-- `seqElemPrefix` at a line start: indentation, `- `, and the item context -/
-theorem seqElemPrefix_line (ho : FragOpts o) {s : St} {q : SeqSer} {d : Nat} (h : LineCtx s) (hq : q.depth = d)
-    (hp : q.first = true → s.pendingInlineMap = false) :
-    ItemCtx (seqElemPrefix o q s) d ∧ (seqElemPrefix o q s).out = s.out ++ spaces (col d) ++ ['-', ' '] ∧
+theorem seqElemPrefix_line (ho : FragOpts o) {s : St} {q : SeqSer} {d c : Nat} (h : LineCtx s) (hq : q.depth = d)
+    (hcol : Col o s d c) (hp : q.first = true → s.pendingInlineMap = false) :
+    ItemCtx o (seqElemPrefix o q s) d c ∧ (seqElemPrefix o q s).out = s.out ++ spaces c ++ ['-', ' '] ∧
     (seqElemPrefix o q s).lastValueWasBlock = s.lastValueWasBlock ∧
-    (seqElemPrefix o q s).currentMapDepth = s.currentMapDepth := by
-  have := h.als; have := h.psc; have := ho.yaml12; have := ho.indent
+    (seqElemPrefix o q s).currentMapDepth = s.currentMapDepth ∧
+    (seqElemPrefix o q s).indentShift = s.indentShift := by
+  have := h.als; have := h.psc; have := ho.yaml12
+  have hic := indentCols_col hcol
   subst hq
-  cases hf : q.first
-  · refine ⟨?_, ?_, ?_, ?_⟩
+  have hsh : (seqElemPrefix o q s).indentShift = s.indentShift := by
+    cases hf : q.first <;> (by_cases hd : s.docStarted = true <;> by_cases hi : s.inlineMapAfterDash = true <;>
+      simp [seqElemPrefix, writeIndent, St.write, hf, *])
+  refine ⟨?_, ?_, ?_, ?_, hsh⟩
+  · cases hf : q.first
     · constructor
       · constructor <;> (by_cases hd : s.docStarted = true <;> by_cases hi : s.inlineMapAfterDash = true <;>
-          simp [seqElemPrefix, writeIndent, St.write, hf, *, h.depth, h.inFlow, h.pendingFlow, h.pss, h.pic])
-      all_goals (by_cases hd : s.docStarted = true <;> by_cases hi : s.inlineMapAfterDash = true <;>
-          simp [seqElemPrefix, writeIndent, St.write, hf, *])
-    all_goals (by_cases hd : s.docStarted = true <;> by_cases hi : s.inlineMapAfterDash = true <;>
-          simp [seqElemPrefix, writeIndent, St.write, hf, *, col, List.append_assoc])
-  · have := hp hf
-    refine ⟨?_, ?_, ?_, ?_⟩
-    · constructor
+          simp [seqElemPrefix, writeIndent, St.write, hf, *, h.inFlow, h.pendingFlow, h.pss, h.pic])
+      all_goals first
+        | exact hcol.of_shift hsh
+        | (by_cases hd : s.docStarted = true <;> by_cases hi : s.inlineMapAfterDash = true <;>
+            simp [seqElemPrefix, writeIndent, St.write, hf, *])
+    · have := hp hf
+      constructor
       · constructor <;> (by_cases hd : s.docStarted = true <;> by_cases hi : s.inlineMapAfterDash = true <;>
-          simp [seqElemPrefix, writeIndent, St.write, hf, *, h.depth, h.inFlow, h.pendingFlow, h.pss, h.pic])
-      all_goals (by_cases hd : s.docStarted = true <;> by_cases hi : s.inlineMapAfterDash = true <;>
-          simp [seqElemPrefix, writeIndent, St.write, hf, *])
-    all_goals (by_cases hd : s.docStarted = true <;> by_cases hi : s.inlineMapAfterDash = true <;>
-          simp [seqElemPrefix, writeIndent, St.write, hf, *, col, List.append_assoc])
+          simp [seqElemPrefix, writeIndent, St.write, hf, *, h.inFlow, h.pendingFlow, h.pss, h.pic])
+      all_goals first
+        | exact hcol.of_shift hsh
+        | (by_cases hd : s.docStarted = true <;> by_cases hi : s.inlineMapAfterDash = true <;>
+            simp [seqElemPrefix, writeIndent, St.write, hf, *])
+  all_goals
+    cases hf : q.first
+    · by_cases hd : s.docStarted = true <;> by_cases hi : s.inlineMapAfterDash = true <;>
+        simp [seqElemPrefix, writeIndent, hic, St.write, hf, *, List.append_assoc]
+    · have := hp hf
+      by_cases hd : s.docStarted = true <;> by_cases hi : s.inlineMapAfterDash = true <;>
+        simp [seqElemPrefix, writeIndent, hic, St.write, hf, *, List.append_assoc]
 
 /-- `seqElemPrefix` of the first element of a sequence that starts right after `- ` -/
-theorem seqElemPrefix_inline {s : St} {q : SeqSer} (hb : Base s) (hals : s.atLineStart = false)
-    (hpsc : s.pendingSpaceAfterColon = false) (hf : q.first = true) :
-    ItemCtx (seqElemPrefix o q s) q.depth ∧ (seqElemPrefix o q s).out = s.out ++ ['-', ' '] ∧
+theorem seqElemPrefix_inline {s : St} {q : SeqSer} {c : Nat} (hb : Base s) (hals : s.atLineStart = false)
+    (hpsc : s.pendingSpaceAfterColon = false) (hf : q.first = true) (hcol : Col o s q.depth c) :
+    ItemCtx o (seqElemPrefix o q s) q.depth c ∧ (seqElemPrefix o q s).out = s.out ++ ['-', ' '] ∧
     (seqElemPrefix o q s).lastValueWasBlock = s.lastValueWasBlock ∧
-    (seqElemPrefix o q s).currentMapDepth = s.currentMapDepth := by
-  refine ⟨?_, ?_, ?_, ?_⟩
+    (seqElemPrefix o q s).currentMapDepth = s.currentMapDepth ∧
+    (seqElemPrefix o q s).indentShift = s.indentShift := by
+  have hsh : (seqElemPrefix o q s).indentShift = s.indentShift := by
+    by_cases hi : s.inlineMapAfterDash = true <;> simp [seqElemPrefix, St.write, hf, *]
+  refine ⟨?_, ?_, ?_, ?_, hsh⟩
   · constructor
     · constructor <;> (by_cases hi : s.inlineMapAfterDash = true <;>
-        simp [seqElemPrefix, St.write, hf, *, hb.depth, hb.inFlow, hb.pendingFlow, hb.pss, hb.pic])
-    all_goals (by_cases hi : s.inlineMapAfterDash = true <;> simp [seqElemPrefix, St.write, hf, *])
+        simp [seqElemPrefix, St.write, hf, *, hb.inFlow, hb.pendingFlow, hb.pss, hb.pic])
+    all_goals first
+      | exact hcol.of_shift hsh
+      | (by_cases hi : s.inlineMapAfterDash = true <;> simp [seqElemPrefix, St.write, hf, *])
   all_goals (by_cases hi : s.inlineMapAfterDash = true <;> simp [seqElemPrefix, St.write, hf, *])
 
-/-- `serialize_seq` right after `- `: the nested sequence keeps its first dash on the line -/
-theorem serializeSeq_item {s : St} {d : Nat} (h : ItemCtx s d) :
-    (serializeSeq o s).1 = { depth := d + 1, flow := false, first := true } ∧
+/-- `serialize_seq` right after `- `: the nested sequence keeps its first dash on the line; its dashes
+stand two columns after the outer dash -/
+theorem serializeSeq_item {s : St} {d c : Nat} (h : ItemCtx o s d c) :
+    (serializeSeq o s).1 = { depth := d + 1, flow := false, first := true, restoreShift := some s.indentShift } ∧
     Base (serializeSeq o s).2 ∧ (serializeSeq o s).2.atLineStart = false ∧
     (serializeSeq o s).2.pendingSpaceAfterColon = false ∧ (serializeSeq o s).2.out = s.out ∧
     (serializeSeq o s).2.lastValueWasBlock = s.lastValueWasBlock ∧
-    (serializeSeq o s).2.currentMapDepth = s.currentMapDepth := by
+    (serializeSeq o s).2.currentMapDepth = s.currentMapDepth ∧
+    Col o (serializeSeq o s).2 (d + 1) (c + 2) := by
   have := h.als; have := h.psc; have := h.add; have := h.inFlow; have := h.pendingFlow
-  refine ⟨?_, ?_, ?_, ?_, ?_, ?_, ?_⟩
+  have hst : (serializeSeq o s).2 = shiftForInlineNode o { s with pendingFlow := none, pendingInlineComment := none } := by
+    simp [serializeSeq, takeFlow, *]
+  refine ⟨?_, ?_, ?_, ?_, ?_, ?_, ?_, ?_⟩
   · simp [serializeSeq, takeFlow, *]
-  · constructor <;> simp [serializeSeq, takeFlow, *, h.depth, h.pss]
-  all_goals simp [serializeSeq, takeFlow, *]
+  · constructor <;> simp [hst, shiftForInlineNode, h.pss, *]
+  · simp [hst, shiftForInlineNode, *]
+  · simp [hst, shiftForInlineNode, *]
+  · simp [hst, shiftForInlineNode]
+  · simp [hst, shiftForInlineNode]
+  · simp [hst, shiftForInlineNode]
+  · rw [hst]; exact Col.inline (h.col.of_shift rfl)
 
 /-- `serialize_seq` at a line start at depth 0 (the root) -/
-theorem serializeSeq_line {s : St} (h : LineCtx s) :
+theorem serializeSeq_line {s : St} (h : LineCtx s) (hd0 : s.depth = 0) :
     (serializeSeq o s).1 = { depth := 0, flow := false, first := true } ∧
     LineCtx (serializeSeq o s).2 ∧ (serializeSeq o s).2.out = s.out ∧
     (serializeSeq o s).2.lastValueWasBlock = s.lastValueWasBlock ∧
     (serializeSeq o s).2.currentMapDepth = s.currentMapDepth ∧
-    (serializeSeq o s).2.pendingInlineMap = s.pendingInlineMap := by
-  have := h.als; have := h.psc; have := h.inFlow; have := h.pendingFlow; have := h.depth
-  refine ⟨?_, ?_, ?_, ?_, ?_, ?_⟩
+    (serializeSeq o s).2.pendingInlineMap = s.pendingInlineMap ∧
+    (serializeSeq o s).2.indentShift = s.indentShift := by
+  have := h.als; have := h.psc; have := h.inFlow; have := h.pendingFlow
+  refine ⟨?_, ?_, ?_, ?_, ?_, ?_, ?_⟩
   · simp [serializeSeq, takeFlow, *]
   · constructor
     · constructor <;> simp [serializeSeq, takeFlow, *, h.pss]
     all_goals simp [serializeSeq, takeFlow, *]
   all_goals simp [serializeSeq, takeFlow, *]
 
-/-- `serialize_seq` of a NON-EMPTY sequence right after `key:`: the items start on the next line at
-depth `m + 1`, whether the line break is forced now (block sibling before) or deferred to the
-first element -/
-theorem serializeSeq_val (ho : FragOpts o) {s : St} {m : Nat} (h : ValCtx s m) (x : SVal) (xs : List SVal) :
-    ∃ s2, serSeqElems o f (serializeSeq o s).1 (x :: xs) (serializeSeq o s).2 =
-        serSeqElems o f { depth := m + 1, flow := false, first := true } (x :: xs) s2 ∧
+/-- `serialize_seq` of a NON-EMPTY sequence right after `key:`: the first element breaks the line and
+the items start one level deeper — or, with `compact_list_indent` inside a mapping, at the level of
+the key (a block sibling before only has its marker consumed) -/
+theorem serializeSeq_val (ho : FragOpts o) {s : St} {m c : Nat} (h : ValCtx o s m c) (x : SVal) (xs : List SVal) :
+    ∃ s2 dq, serSeqElems o f (serializeSeq o s).1 (x :: xs) (serializeSeq o s).2 =
+        serSeqElems o f { depth := dq, flow := false, first := true } (x :: xs) s2 ∧
       LineCtx s2 ∧ s2.pendingInlineMap = false ∧ s2.out = s.out ++ ['\n'] ∧
-      s2.lastValueWasBlock = false ∧ s2.currentMapDepth = s.currentMapDepth := by
+      s2.lastValueWasBlock = false ∧ s2.currentMapDepth = s.currentMapDepth ∧ s2.indentShift = s.indentShift ∧
+      Col o s2 dq (seqCol o.indentStep o.compactListIndent s.currentMapDepth.isSome c) := by
   have := h.als; have := h.psc; have := h.add; have := h.inFlow; have := h.pendingFlow; have := h.pim
-  have := h.depth; have := ho.compact
-  have hbase : (if s.currentMapDepth.isSome = true then s.currentMapDepth.getD 0 else 0) = m := by
-    rcases h.cmd with hc | ⟨hc, hm⟩
+  have hbase : (if s.currentMapDepth.isSome = true then s.currentMapDepth.getD s.depth else s.depth) = m := by
+    rcases h.cmd with hc | ⟨hc, hm, hd0⟩
     · simp [hc]
-    · simp [hc, hm]
-  cases hl : s.lastValueWasBlock
-  · -- deferred: the first element prefix breaks the line
-    refine ⟨newline { s with pendingSpaceAfterColon := false, pendingFlow := none, pendingInlineComment := none }, ?_, ?_, ?_, ?_, ?_, ?_⟩
-    · simp [serializeSeq, takeFlow, serSeqElems, seqElemPrefix, newline, *]
-    · constructor
-      · constructor <;> simp [newline, *, h.pss]
-      all_goals simp [newline]
-    all_goals simp [newline, *]
-  · refine ⟨(serializeSeq o s).2, ?_, ?_, ?_, ?_, ?_, ?_⟩
-    · simp [serializeSeq, takeFlow, newline, *]
-    · constructor
-      · constructor <;> simp [serializeSeq, takeFlow, newline, *, h.pss]
-      all_goals simp [serializeSeq, takeFlow, newline, *]
-    all_goals simp [serializeSeq, takeFlow, newline, *]
-
-/-- `SeqSer::end` of a non-empty block sequence -/
-theorem seqEnd_nonempty {s0 s : St} {q : SeqSer} (hq : q.flow = false) (hf : q.first = false) (h : Post s0 s) :
-    Post s0 (seqEnd o q s) ∧ (seqEnd o q s).out = s.out ∧ (seqEnd o q s).lastValueWasBlock = true := by
-  refine ⟨?_, ?_, ?_⟩
+    · simp [hc, hm, hd0]
+  refine ⟨newline { s with pendingSpaceAfterColon := false, pendingFlow := none, pendingInlineComment := none,
+                            lastValueWasBlock := false },
+    (if (o.compactListIndent && s.currentMapDepth.isSome) = true then m else m + 1), ?_, ?_, ?_, ?_, ?_, ?_, ?_, ?_⟩
+  · cases hl : s.lastValueWasBlock <;>
+      simp [serializeSeq, takeFlow, serSeqElems, seqElemPrefix, newline, *]
   · constructor
-    · constructor <;> simp [seqEnd, hq, hf, h.depth, h.inFlow, h.pendingFlow, h.pss, h.pic]
-    all_goals simp [seqEnd, hq, hf, h.als, h.psc, h.cmd]
-  all_goals simp [seqEnd, hq, hf]
+    · constructor <;> simp [newline, *, h.pss]
+    all_goals simp [newline]
+  · simp [newline, *]
+  · simp [newline, *]
+  · simp [newline, *]
+  · simp [newline, *]
+  · simp [newline, *]
+  · by_cases hcp : (o.compactListIndent && s.currentMapDepth.isSome) = true
+    · simp only [hcp, if_true, seqCol]
+      exact h.col.of_shift rfl
+    · simp only [hcp, if_false, seqCol, Bool.false_eq_true]
+      exact h.col.succ.of_shift rfl
+
+/-- `SeqSer::finish` of a non-empty block sequence (`s0` = the state the sequence started in) -/
+theorem seqEnd_nonempty {s0 s : St} {q : SeqSer} (hq : q.flow = false) (hf : q.first = false)
+    (hb : Base s) (hals : s.atLineStart = true) (hpsc : s.pendingSpaceAfterColon = false)
+    (hcmd : s.currentMapDepth = s0.currentMapDepth)
+    (hr : (q.restoreShift = none ∧ s.indentShift = s0.indentShift) ∨ q.restoreShift = some s0.indentShift) :
+    Post s0 (seqEnd o q s) ∧ (seqEnd o q s).out = s.out ∧ (seqEnd o q s).lastValueWasBlock = true := by
+  rcases hr with ⟨hr, hs⟩ | hr
+  all_goals
+    refine ⟨?_, ?_, ?_⟩
+    · constructor
+      · constructor <;> simp [seqEnd, restoreShift, hr, hq, hf, hb.inFlow, hb.pendingFlow, hb.pss, hb.pic]
+      all_goals simp [seqEnd, restoreShift, hr, hq, hf, hals, hpsc, hcmd, *]
+    all_goals simp [seqEnd, restoreShift, hr, hq, hf]
 
 /-! ### mapping steps -/
 
 theorem keyText_safe (hf : SafeContract f) {k : List Char} (hk : isSafeStr k = true) :
     keyText o f (.str k) = some k := by
   simp [keyText, keyStrText, hf.plain k hk, hf.value k o.yaml12 true hk, hf.shape k hk]
-
-theorem spaces_align (md : Nat) (h : md ≥ 1) : spaces (2 * (md - 1)) ++ [' ', ' '] = spaces (2 * md) := by
-  obtain ⟨n, rfl⟩ : ∃ n, md = n + 1 := ⟨md - 1, by omega⟩
-  simp only [spaces, Nat.add_sub_cancel]
-  rw [show 2 * (n + 1) = 2 * n + 2 by omega, ← List.replicate_append_replicate]
-  rfl
 
 /-- the state right after `key:` has been written, `current_map_depth` set for the value -/
 def afterKey (s : St) (md : Nat) (text : List Char) (doc : Bool) : St :=
@@ -288,78 +346,95 @@ def afterKey (s : St) (md : Nat) (text : List Char) (doc : Bool) : St :=
 
 /-- one entry with a safe string key at a line start: `mapKeyPrefix`, the key text, `:`, then the
 value in `ValCtx`, then the restoration of `current_map_depth` / `pending_inline_map` -/
-theorem serMapEntries_cons_line (ho : FragOpts o) (hf : SafeContract f) {m : MapSer} {s : St} {k : List Char}
+theorem serMapEntries_cons_line (ho : FragOpts o) (hf : SafeContract f) {m : MapSer} {s : St} {k : List Char} {c : Nat}
     (v : SVal) (es : List (SVal × SVal)) (hk : isSafeStr k = true) (hm : m.flow = false)
-    (hivs : m.inlineValueStart = false) (haad : m.alignAfterDash = true → m.depth ≥ 1) (h : LineCtx s) :
-    ∃ s4, ValCtx s4 m.depth ∧ s4.out = s.out ++ spaces (col m.depth) ++ k ++ [':'] ∧
-      s4.lastValueWasBlock = s.lastValueWasBlock ∧
+    (hivs : m.inlineValueStart = false) (h : LineCtx s) (hcol : Col o s m.depth c) :
+    ∃ s4, ValCtx o s4 m.depth c ∧ s4.out = s.out ++ spaces c ++ k ++ [':'] ∧
+      s4.lastValueWasBlock = s.lastValueWasBlock ∧ s4.indentShift = s.indentShift ∧ s4.currentMapDepth.isSome = true ∧
       serMapEntries o f m ((.str k, v) :: es) s =
         (match ser o f v s4 with
          | .error e => .error e
          | .ok s5 => serMapEntries o f { m with first := false, lastKeyComplex := false } es
              { s5 with currentMapDepth := s.currentMapDepth, pendingInlineMap := false }) := by
-  have := h.als; have := h.psc; have := ho.yaml12; have := ho.indent
-  refine ⟨afterKey s m.depth (spaces (col m.depth) ++ k ++ [':']) (if m.alignAfterDash then s.docStarted else true), ?_, ?_, ?_, ?_⟩
+  have := h.als; have := h.psc; have := ho.yaml12
+  have hic := indentCols_col hcol
+  refine ⟨afterKey s m.depth (spaces c ++ k ++ [':']) true, ?_, ?_, ?_, ?_, ?_, ?_⟩
   · constructor
-    · constructor <;> simp [afterKey, h.depth, h.inFlow, h.pendingFlow, h.pss, h.pic]
-    all_goals simp [afterKey]
+    · constructor <;> simp [afterKey, h.inFlow, h.pendingFlow, h.pss, h.pic]
+    all_goals first
+      | exact hcol.of_shift rfl
+      | simp [afterKey]
   · simp [afterKey, List.append_assoc]
+  · simp [afterKey]
+  · simp [afterKey]
   · simp [afterKey]
   · rw [serMapEntries]
     simp only [hm, Bool.false_eq_true, if_false, keyText_safe hf hk]
-    cases ha : m.alignAfterDash
-    · by_cases hd : s.docStarted = true
-      · simp [mapKeyPrefix, mapIndent, writeIndent, St.write, afterKey, hivs, ha, col, List.append_assoc, *]
-        rfl
-      · simp [mapKeyPrefix, mapIndent, writeIndent, St.write, afterKey, hivs, ha, col, List.append_assoc, *]
-        rfl
-    · have h1 := spaces_align m.depth (haad ha)
-      simp [mapKeyPrefix, mapIndent, writeIndent, St.write, afterKey, hivs, ha, col, List.append_assoc, *]
+    by_cases hd : s.docStarted = true
+    · simp [mapKeyPrefix, mapIndent, writeIndent, hic, St.write, afterKey, hivs, List.append_assoc, *]
+      rfl
+    · simp [mapKeyPrefix, mapIndent, writeIndent, hic, St.write, afterKey, hivs, List.append_assoc, *]
       rfl
 
 /-- the first entry of a mapping that starts right after `- `: the key stays on the dash line -/
-theorem serMapEntries_cons_inline (hf : SafeContract f) {m : MapSer} {s : St} {k : List Char}
+theorem serMapEntries_cons_inline (hf : SafeContract f) {m : MapSer} {s : St} {k : List Char} {c : Nat}
     (v : SVal) (es : List (SVal × SVal)) (hk : isSafeStr k = true) (hm : m.flow = false)
     (hivs : m.inlineValueStart = false) (hb : Base s) (hals : s.atLineStart = false)
-    (hpsc : s.pendingSpaceAfterColon = false) :
-    ∃ s4, ValCtx s4 m.depth ∧ s4.out = s.out ++ k ++ [':'] ∧ s4.lastValueWasBlock = false ∧
+    (hpsc : s.pendingSpaceAfterColon = false) (hcol : Col o s m.depth c) :
+    ∃ s4, ValCtx o s4 m.depth c ∧ s4.out = s.out ++ k ++ [':'] ∧ s4.lastValueWasBlock = false ∧
+      s4.indentShift = s.indentShift ∧ s4.currentMapDepth.isSome = true ∧
       serMapEntries o f m ((.str k, v) :: es) s =
         (match ser o f v s4 with
          | .error e => .error e
          | .ok s5 => serMapEntries o f { m with first := false, lastKeyComplex := false } es
              { s5 with currentMapDepth := s.currentMapDepth, pendingInlineMap := false }) := by
-  refine ⟨{ afterKey s m.depth (k ++ [':']) s.docStarted with lastValueWasBlock := false }, ?_, ?_, ?_, ?_⟩
+  refine ⟨{ afterKey s m.depth (k ++ [':']) s.docStarted with lastValueWasBlock := false }, ?_, ?_, ?_, ?_, ?_, ?_⟩
   · constructor
-    · constructor <;> simp [afterKey, hb.depth, hb.inFlow, hb.pendingFlow, hb.pss, hb.pic]
-    all_goals simp [afterKey]
+    · constructor <;> simp [afterKey, hb.inFlow, hb.pendingFlow, hb.pss, hb.pic]
+    all_goals first
+      | exact hcol.of_shift rfl
+      | simp [afterKey]
   · simp [afterKey, List.append_assoc]
+  · simp [afterKey]
+  · simp [afterKey]
   · simp [afterKey]
   · rw [serMapEntries]
     simp only [hm, Bool.false_eq_true, if_false, keyText_safe hf hk]
     simp [mapKeyPrefix, mapIndent, writeIndent, writeSpaceIfPending, St.write, afterKey, hivs, List.append_assoc, *]
     rfl
 
-/-- `serialize_map` right after `- `: first key inline, the others aligned under it -/
-theorem serializeMap_item {s : St} {d : Nat} (len : Option Nat) (h : ItemCtx s d) :
-    (serializeMap o len s).1 = { depth := d + 1, flow := false, first := true, alignAfterDash := true } ∧
+/-- `serialize_map` right after `- `: first key inline, the others aligned under it (two columns
+after the dash) -/
+theorem serializeMap_item {s : St} {d c : Nat} (len : Option Nat) (h : ItemCtx o s d c) :
+    (serializeMap o len s).1 = { depth := d + 1, flow := false, first := true, restoreShift := some s.indentShift } ∧
     Base (serializeMap o len s).2 ∧ (serializeMap o len s).2.atLineStart = false ∧
     (serializeMap o len s).2.pendingSpaceAfterColon = false ∧ (serializeMap o len s).2.out = s.out ∧
     (serializeMap o len s).2.lastValueWasBlock = s.lastValueWasBlock ∧
-    (serializeMap o len s).2.currentMapDepth = s.currentMapDepth := by
+    (serializeMap o len s).2.currentMapDepth = s.currentMapDepth ∧
+    Col o (serializeMap o len s).2 (d + 1) (c + 2) := by
   have := h.als; have := h.psc; have := h.add; have := h.inFlow; have := h.pendingFlow; have := h.pim
-  refine ⟨?_, ?_, ?_, ?_, ?_, ?_, ?_⟩
+  have hst : (serializeMap o len s).2 =
+      shiftForInlineNode o { s with pendingFlow := none, pendingInlineMap := false, inlineMapAfterDash := true } := by
+    simp [serializeMap, takeFlow, *]
+  refine ⟨?_, ?_, ?_, ?_, ?_, ?_, ?_, ?_⟩
   · simp [serializeMap, takeFlow, *]
-  · constructor <;> simp [serializeMap, takeFlow, *, h.depth, h.pss, h.pic]
-  all_goals simp [serializeMap, takeFlow, *]
+  · constructor <;> simp [hst, shiftForInlineNode, h.pss, h.pic, *]
+  · simp [hst, shiftForInlineNode, *]
+  · simp [hst, shiftForInlineNode, *]
+  · simp [hst, shiftForInlineNode]
+  · simp [hst, shiftForInlineNode]
+  · simp [hst, shiftForInlineNode]
+  · rw [hst]; exact Col.inline (h.col.of_shift rfl)
 
 /-- `serialize_map` at a line start at depth 0 (the root) -/
-theorem serializeMap_line {s : St} (len : Option Nat) (h : LineCtx s) (hp : s.pendingInlineMap = false) :
+theorem serializeMap_line {s : St} (len : Option Nat) (h : LineCtx s) (hd0 : s.depth = 0) (hp : s.pendingInlineMap = false) :
     (serializeMap o len s).1 = { depth := 0, flow := false, first := true } ∧
     LineCtx (serializeMap o len s).2 ∧ (serializeMap o len s).2.out = s.out ∧
     (serializeMap o len s).2.lastValueWasBlock = s.lastValueWasBlock ∧
-    (serializeMap o len s).2.currentMapDepth = s.currentMapDepth := by
-  have := h.als; have := h.psc; have := h.inFlow; have := h.pendingFlow; have := h.depth
-  refine ⟨?_, ?_, ?_, ?_, ?_⟩
+    (serializeMap o len s).2.currentMapDepth = s.currentMapDepth ∧
+    (serializeMap o len s).2.indentShift = s.indentShift := by
+  have := h.als; have := h.psc; have := h.inFlow; have := h.pendingFlow
+  refine ⟨?_, ?_, ?_, ?_, ?_, ?_⟩
   · simp [serializeMap, takeFlow, *]
   · constructor
     · constructor <;> simp [serializeMap, takeFlow, *, h.pss, h.pic]
@@ -369,21 +444,21 @@ theorem serializeMap_line {s : St} (len : Option Nat) (h : LineCtx s) (hp : s.pe
 /-- `serialize_map` of a NON-EMPTY mapping right after `key:`: the entries start on the next line at
 depth `m + 1` (line break forced by a block sibling, written because the length is known, or
 deferred to the first key when the length is unknown) -/
-theorem serializeMap_val (ho : FragOpts o) {s : St} {m : Nat} (h : ValCtx s m) (known : Bool)
+theorem serializeMap_val (ho : FragOpts o) {s : St} {m c : Nat} (h : ValCtx o s m c) (known : Bool)
     (e : SVal × SVal) (es : List (SVal × SVal)) :
     ∃ s2, serMapEntries o f (serializeMap o (if known then some (e :: es).length else none) s).1 (e :: es)
           (serializeMap o (if known then some (e :: es).length else none) s).2 =
         serMapEntries o f { depth := m + 1, flow := false, first := true } (e :: es) s2 ∧
       LineCtx s2 ∧ s2.out = s.out ++ ['\n'] ∧
-      s2.lastValueWasBlock = false ∧ s2.currentMapDepth = s.currentMapDepth := by
+      s2.lastValueWasBlock = false ∧ s2.currentMapDepth = s.currentMapDepth ∧ s2.indentShift = s.indentShift := by
   have := h.als; have := h.psc; have := h.add; have := h.inFlow; have := h.pendingFlow; have := h.pim
-  have := h.depth; have := ho.braces
-  have hbase : (if s.currentMapDepth.isSome = true then s.currentMapDepth.getD 0 else 0) = m := by
-    rcases h.cmd with hc | ⟨hc, hm⟩
+  have := ho.braces
+  have hbase : (if s.currentMapDepth.isSome = true then s.currentMapDepth.getD s.depth else s.depth) = m := by
+    rcases h.cmd with hc | ⟨hc, hm, hd0⟩
     · simp [hc]
-    · simp [hc, hm]
+    · simp [hc, hm, hd0]
   obtain ⟨k, v⟩ := e
-  refine ⟨newline { s with pendingSpaceAfterColon := false, pendingFlow := none, lastValueWasBlock := false }, ?_, ?_, ?_, ?_, ?_⟩
+  refine ⟨newline { s with pendingSpaceAfterColon := false, pendingFlow := none, lastValueWasBlock := false }, ?_, ?_, ?_, ?_, ?_, ?_⟩
   · cases hl : s.lastValueWasBlock <;> cases known
     · -- unknown length, no block sibling: the first key breaks the line
       rw [serMapEntries, serMapEntries]
@@ -396,66 +471,176 @@ theorem serializeMap_val (ho : FragOpts o) {s : St} {m : Nat} (h : ValCtx s m) (
     all_goals simp [newline]
   all_goals simp [newline, *]
 
-/-- `MapSer::end` of a non-empty block mapping -/
-theorem mapEnd_nonempty {s0 s : St} {m : MapSer} (hm : m.flow = false) (hf : m.first = false) (h : Post s0 s) :
+/-- `MapSer::finish` of a non-empty block mapping (`s0` = the state the mapping started in) -/
+theorem mapEnd_nonempty {s0 s : St} {m : MapSer} (hm : m.flow = false) (hf : m.first = false)
+    (hb : Base s) (hals : s.atLineStart = true) (hpsc : s.pendingSpaceAfterColon = false)
+    (hcmd : s.currentMapDepth = s0.currentMapDepth)
+    (hr : (m.restoreShift = none ∧ s.indentShift = s0.indentShift) ∨ m.restoreShift = some s0.indentShift) :
     Post s0 (mapEnd o m s) ∧ (mapEnd o m s).out = s.out ∧ (mapEnd o m s).lastValueWasBlock = true := by
-  refine ⟨?_, ?_, ?_⟩
-  · constructor
-    · constructor <;> simp [mapEnd, hm, hf, h.depth, h.inFlow, h.pendingFlow, h.pss, h.pic]
-    all_goals simp [mapEnd, hm, hf, h.als, h.psc, h.cmd]
-  all_goals simp [mapEnd, hm, hf]
+  rcases hr with ⟨hr, hs⟩ | hr
+  all_goals
+    refine ⟨?_, ?_, ?_⟩
+    · constructor
+      · constructor <;> simp [mapEnd, restoreShift, hr, hm, hf, hb.inFlow, hb.pendingFlow, hb.pss, hb.pic]
+      all_goals simp [mapEnd, restoreShift, hr, hm, hf, hals, hpsc, hcmd, *]
+    all_goals simp [mapEnd, restoreShift, hr, hm, hf]
 
-/-! ### newtype variants -/
+
+/-! ### composite keys: `? key` / `: value` -/
+
+theorem keyText_complex : ∀ (k : SVal), isComplexKey k = true → keyText o f k = none
+  | .seq _, _ => rfl
+  | .tuple _, _ => rfl
+  | .tupleStruct _, _ => rfl
+  | .map _ _, _ => rfl
+  | .newtypeVariant _ _, _ => rfl
+  | .tupleVariant _ _, _ => rfl
+  | .structVariant _ _, _ => rfl
+  | .some v, h => by simp only [isComplexKey] at h; simpa [keyText] using keyText_complex v h
+  | .newtypeStruct v, h => by simp only [isComplexKey] at h; simpa [keyText] using keyText_complex v h
+  | .unit, h => by simp [isComplexKey] at h
+  | .bool _, h => by simp [isComplexKey] at h
+  | .int _, h => by simp [isComplexKey] at h
+  | .str _, h => by simp [isComplexKey] at h
+  | .none, h => by simp [isComplexKey] at h
+  | .unitVariant _ _, h => by simp [isComplexKey] at h
+  | .flowSeq _, h => by simp [isComplexKey] at h
+  | .flowMap _, h => by simp [isComplexKey] at h
+  | .commented _ _, h => by simp [isComplexKey] at h
+  | .spaceAfter _, h => by simp [isComplexKey] at h
+  | .litStr _, h => by simp [isComplexKey] at h
+  | .foldStr _, h => by simp [isComplexKey] at h
+
+theorem keyOf_complex : ∀ (k : SVal), isComplexKey k = true → keyOf k = none
+  | .str _, h => by simp [isComplexKey] at h
+  | .seq _, _ => rfl
+  | .tuple _, _ => rfl
+  | .tupleStruct _, _ => rfl
+  | .map _ _, _ => rfl
+  | .newtypeVariant _ _, _ => rfl
+  | .tupleVariant _ _, _ => rfl
+  | .structVariant _ _, _ => rfl
+  | .some _, _ => rfl
+  | .newtypeStruct _, _ => rfl
+  | .unit, _ => rfl
+  | .bool _, _ => rfl
+  | .int _, _ => rfl
+  | .none, _ => rfl
+  | .unitVariant _ _, _ => rfl
+  | .flowSeq _, _ => rfl
+  | .flowMap _, _ => rfl
+  | .commented _ _, _ => rfl
+  | .spaceAfter _, _ => rfl
+  | .litStr _, _ => rfl
+  | .foldStr _, _ => rfl
+
+/-- one entry with a composite key of a block mapping: the key and the value are serialized in the
+states `complexKeyCtx` / `complexValueCtx` -/
+theorem serMapEntries_complex (m : MapSer) (k v : SVal) (es : List (SVal × SVal)) (s : St)
+    (hm : m.flow = false) (hkt : keyText o f k = none) :
+    serMapEntries o f m ((k, v) :: es) s =
+      (match ser o f k (complexKeyCtx (mapKeyPrefix m s).1 (complexKeyMark o (mapKeyPrefix m s).1 (mapKeyPrefix m s).2)) with
+       | .error e => .error e
+       | .ok sk =>
+         match ser o f v (complexValueCtx o (mapKeyPrefix m s).1 (complexKeyMark o (mapKeyPrefix m s).1 (mapKeyPrefix m s).2) sk) with
+         | .error e => .error e
+         | .ok sv => serMapEntries o f { (mapKeyPrefix m s).1 with first := false, lastKeyComplex := false } es
+             (complexEntryDone (complexKeyMark o (mapKeyPrefix m s).1 (mapKeyPrefix m s).2) sv)) := by
+  rw [serMapEntries]
+  simp only [hm, Bool.false_eq_true, if_false, hkt]
+  generalize mapKeyPrefix m s = p
+  obtain ⟨m', s'⟩ := p
+  rfl
+
+/-- the key of a composite entry that starts a line: `? ` at column `c`, the key in item context -/
+theorem complexKey_line (ho : FragOpts o) {m : MapSer} {s : St} {c : Nat} (hivs : m.inlineValueStart = false)
+    (h : LineCtx s) (hcol : Col o s m.depth c) :
+    (mapKeyPrefix m s).1 = m ∧
+    ItemCtx o (complexKeyCtx m (complexKeyMark o m (mapKeyPrefix m s).2)) m.depth c ∧
+    (complexKeyCtx m (complexKeyMark o m (mapKeyPrefix m s).2)).out = s.out ++ spaces c ++ ['?', ' '] ∧
+    (complexKeyCtx m (complexKeyMark o m (mapKeyPrefix m s).2)).lastValueWasBlock = s.lastValueWasBlock ∧
+    (complexKeyCtx m (complexKeyMark o m (mapKeyPrefix m s).2)).indentShift = s.indentShift ∧
+    (complexKeyMark o m (mapKeyPrefix m s).2).depth = s.depth ∧
+    (complexKeyMark o m (mapKeyPrefix m s).2).currentMapDepth = s.currentMapDepth ∧
+    (complexKeyMark o m (mapKeyPrefix m s).2).pendingInlineMap = false ∧
+    (complexKeyMark o m (mapKeyPrefix m s).2).afterDashDepth = none := by
+  have := h.als; have := h.psc; have := ho.yaml12
+  have hic := indentCols_col hcol
+  have hsh : (complexKeyCtx m (complexKeyMark o m (mapKeyPrefix m s).2)).indentShift = s.indentShift := by
+    by_cases hd : s.docStarted = true <;>
+      simp [complexKeyCtx, complexKeyMark, mapKeyPrefix, writeIndent, St.write, hivs, *]
+  refine ⟨?_, ?_, ?_, ?_, hsh, ?_, ?_, ?_, ?_⟩
+  · simp [mapKeyPrefix, hivs, *]
+  · constructor
+    · constructor <;> (by_cases hd : s.docStarted = true <;>
+        simp [complexKeyCtx, complexKeyMark, mapKeyPrefix, writeIndent, St.write, hivs, *, h.inFlow, h.pendingFlow, h.pss, h.pic])
+    all_goals first
+      | exact hcol.of_shift hsh
+      | (by_cases hd : s.docStarted = true <;>
+          simp [complexKeyCtx, complexKeyMark, mapKeyPrefix, writeIndent, St.write, hivs, *])
+  all_goals (by_cases hd : s.docStarted = true <;>
+    simp [complexKeyCtx, complexKeyMark, mapKeyPrefix, writeIndent, hic, St.write, hivs, List.append_assoc, *])
+
+/-- the key of a composite FIRST entry of a mapping that starts right after `- `: `? ` on the dash line -/
+theorem complexKey_inline {m : MapSer} {s : St} {c : Nat} (hivs : m.inlineValueStart = false)
+    (hb : Base s) (hals : s.atLineStart = false) (hpsc : s.pendingSpaceAfterColon = false) (hcol : Col o s m.depth c) :
+    (mapKeyPrefix m s).1 = m ∧
+    ItemCtx o (complexKeyCtx m (complexKeyMark o m (mapKeyPrefix m s).2)) m.depth c ∧
+    (complexKeyCtx m (complexKeyMark o m (mapKeyPrefix m s).2)).out = s.out ++ ['?', ' '] ∧
+    (complexKeyCtx m (complexKeyMark o m (mapKeyPrefix m s).2)).lastValueWasBlock = false ∧
+    (complexKeyCtx m (complexKeyMark o m (mapKeyPrefix m s).2)).indentShift = s.indentShift ∧
+    (complexKeyMark o m (mapKeyPrefix m s).2).depth = s.depth ∧
+    (complexKeyMark o m (mapKeyPrefix m s).2).currentMapDepth = s.currentMapDepth ∧
+    (complexKeyMark o m (mapKeyPrefix m s).2).pendingInlineMap = false ∧
+    (complexKeyMark o m (mapKeyPrefix m s).2).afterDashDepth = none := by
+  have hsh : (complexKeyCtx m (complexKeyMark o m (mapKeyPrefix m s).2)).indentShift = s.indentShift := by
+    simp [complexKeyCtx, complexKeyMark, mapKeyPrefix, writeIndent, writeSpaceIfPending, St.write, hivs, *]
+  refine ⟨?_, ?_, ?_, ?_, hsh, ?_, ?_, ?_, ?_⟩
+  · simp [mapKeyPrefix, hivs, *]
+  · constructor
+    · constructor <;>
+        simp [complexKeyCtx, complexKeyMark, mapKeyPrefix, writeIndent, writeSpaceIfPending, St.write, hivs, *, hb.inFlow, hb.pendingFlow, hb.pss, hb.pic]
+    all_goals first
+      | exact hcol.of_shift hsh
+      | simp [complexKeyCtx, complexKeyMark, mapKeyPrefix, writeIndent, writeSpaceIfPending, St.write, hivs, *]
+  all_goals
+    simp [complexKeyCtx, complexKeyMark, mapKeyPrefix, writeIndent, writeSpaceIfPending, St.write, hivs, List.append_assoc, *]
+
+/-- the value of a composite entry: `: ` at column `c`, the value in item context; `s0` = the state the
+saved fields are taken from, `sk` = the state after the key -/
+theorem complexValue_ctx (ho : FragOpts o) {m : MapSer} {s0 sk : St} {c : Nat}
+    (hb : Base sk) (hals : sk.atLineStart = true) (hcol : Col o sk m.depth c) :
+    ItemCtx o (complexValueCtx o m s0 sk) m.depth c ∧
+    (complexValueCtx o m s0 sk).out = sk.out ++ spaces c ++ [':', ' '] ∧
+    (complexValueCtx o m s0 sk).lastValueWasBlock = false ∧
+    (complexValueCtx o m s0 sk).indentShift = sk.indentShift := by
+  have := ho.yaml12
+  have hic := indentCols_col hcol
+  have hsh : (complexValueCtx o m s0 sk).indentShift = sk.indentShift := by
+    by_cases hd : sk.docStarted = true <;> simp [complexValueCtx, mapIndent, writeIndent, St.write, *]
+  refine ⟨?_, ?_, ?_, hsh⟩
+  · constructor
+    · constructor <;> (by_cases hd : sk.docStarted = true <;>
+        simp [complexValueCtx, mapIndent, writeIndent, St.write, *, hb.inFlow, hb.pendingFlow, hb.pss, hb.pic])
+    all_goals first
+      | exact hcol.of_shift hsh
+      | (by_cases hd : sk.docStarted = true <;> simp [complexValueCtx, mapIndent, writeIndent, St.write, *])
+  all_goals (by_cases hd : sk.docStarted = true <;>
+    simp [complexValueCtx, mapIndent, writeIndent, hic, St.write, List.append_assoc, *])
+
+
+/-! ### enum variants with data: `begin_variant` / `end_variant` -/
 
 theorem plainOrQuoted_safe (ho : FragOpts o) (hf : SafeContract f) {n : List Char} (hn : isSafeStr n = true) :
     plainOrQuoted o f n = n := by
   simp [plainOrQuoted, ho.quoteAll, hf.plain n hn, hf.shape n hn]
 
-/-- newtype variant right after `key:`: the label goes to the next line one level deeper -/
-theorem nv_val (ho : FragOpts o) (hf : SafeContract f) {s : St} {m : Nat} (h : ValCtx s m) {n : List Char}
-    (hn : isSafeStr n = true) (v : SVal) :
-    ∃ s3, ValCtx s3 (m + 1) ∧ s3.out = s.out ++ ['\n'] ++ spaces (col (m + 1)) ++ n ++ [':'] ∧
-      s3.lastValueWasBlock = s.lastValueWasBlock ∧
-      ser o f (.newtypeVariant n v) s =
-        (match ser o f v s3 with
-         | .error e => .error e
-         | .ok s5 => .ok { s5 with currentMapDepth := s.currentMapDepth }) := by
-  have := h.als; have := h.psc; have := h.depth; have := ho.yaml12; have := ho.indent
-  have hbase : s.currentMapDepth.getD 0 = m := by
-    rcases h.cmd with hc | ⟨hc, hm⟩
-    · simp [hc]
-    · simp [hc, hm]
-  refine ⟨{ afterKey s (m + 1) (['\n'] ++ spaces (col (m + 1)) ++ n ++ [':']) true with afterDashDepth := s.afterDashDepth }, ?_, ?_, ?_, ?_⟩
-  · constructor
-    · constructor <;> simp [afterKey, h.depth, h.inFlow, h.pendingFlow, h.pss, h.pic]
-    all_goals simp [afterKey, h.add]
-  · simp [afterKey, List.append_assoc]
-  · simp [afterKey]
-  · rw [ser]
-    by_cases hd : s.docStarted = true <;>
-      simp [newline, writeIndent, St.write, afterKey, plainOrQuoted_safe ho hf hn, col, List.append_assoc, *] <;> rfl
-
-/-- newtype variant right after `- `: the label stays on the dash line -/
-theorem nv_item (ho : FragOpts o) (hf : SafeContract f) {s : St} {d : Nat} (h : ItemCtx s d) {n : List Char}
-    (hn : isSafeStr n = true) (v : SVal) :
-    ∃ s3, ValCtx s3 (d + 1) ∧ s3.out = s.out ++ n ++ [':'] ∧
-      s3.lastValueWasBlock = s.lastValueWasBlock ∧
-      ser o f (.newtypeVariant n v) s =
-        (match ser o f v s3 with
-         | .error e => .error e
-         | .ok s5 => .ok { s5 with currentMapDepth := s.currentMapDepth }) := by
-  have := h.als; have := h.psc; have := h.add
-  refine ⟨afterKey s (d + 1) (n ++ [':']) s.docStarted, ?_, ?_, ?_, ?_⟩
-  · constructor
-    · constructor <;> simp [afterKey, h.depth, h.inFlow, h.pendingFlow, h.pss, h.pic]
-    all_goals simp [afterKey]
-  · simp [afterKey, List.append_assoc]
-  · simp [afterKey]
-  · rw [ser]
-    simp [indentIfLineStart, St.write, afterKey, plainOrQuoted_safe ho hf hn, List.append_assoc, *]
-    rfl
-
-/-! ### unfolding lemmas in projection form, empty containers -/
+/-- `serialize_newtype_variant` / `serialize_tuple_variant` / `serialize_struct_variant`: the key, the
+payload `P` in value position, `end_variant` -/
+def variantRun (o : Opts) (f : ScalarFns) (n : List Char) (P : St → Except EmitErr St) (s : St) : Except EmitErr St :=
+  match P (beginVariant o f n s).2 with
+  | .error e => .error e
+  | .ok s2 => .ok (endVariant (beginVariant o f n s).1 s2)
 
 theorem ser_seq (xs : List SVal) (s : St) :
     ser o f (.seq xs) s =
@@ -466,14 +651,11 @@ theorem ser_seq (xs : List SVal) (s : St) :
   generalize serializeSeq o s = p
   cases p; rfl
 
-theorem ser_tuple (xs : List SVal) (s : St) :
-    ser o f (.tuple xs) s =
-      (match serSeqElems o f (serializeSeq o s).1 xs (serializeSeq o s).2 with
-       | .error e => .error e
-       | .ok (q, s') => .ok (seqEnd o q s')) := by
-  rw [ser]
-  generalize serializeSeq o s = p
-  cases p; rfl
+theorem ser_tuple (xs : List SVal) (s : St) : ser o f (.tuple xs) s = ser o f (.seq xs) s := by
+  rw [ser, ser]
+
+theorem ser_tupleStruct (xs : List SVal) (s : St) : ser o f (.tupleStruct xs) s = ser o f (.seq xs) s := by
+  rw [ser, ser]
 
 theorem ser_map (known : Bool) (es : List (SVal × SVal)) (s : St) :
     ser o f (.map known es) s =
@@ -485,103 +667,546 @@ theorem ser_map (known : Bool) (es : List (SVal × SVal)) (s : St) :
   generalize serializeMap o (if known then some es.length else none) s = p
   cases p; rfl
 
-theorem serSeqElems_nil (q : SeqSer) (s : St) : serSeqElems o f q [] s = .ok (q, s) := by rw [serSeqElems]
-theorem serMapEntries_nil (m : MapSer) (s : St) : serMapEntries o f m [] s = .ok (m, s) := by rw [serMapEntries]
+theorem ser_newtypeVariant (n : List Char) (v : SVal) (s : St) :
+    ser o f (.newtypeVariant n v) s = variantRun o f n (ser o f v) s := by
+  rw [ser, variantRun]
+  generalize beginVariant o f n s = p
+  cases p; rfl
 
-/-- empty sequence right after `key:`: ` []`, or `[]` on its own line after a block sibling -/
-theorem seq_empty_val (ho : FragOpts o) {s : St} {m : Nat} (h : ValCtx s m) :
-    Good s (seqValOf m s.lastValueWasBlock true []) (.ok (seqEnd o (serializeSeq o s).1 (serializeSeq o s).2)) := by
-  have := h.als; have := h.psc; have := h.inFlow; have := h.pendingFlow; have := h.depth
-  have := ho.braces; have := ho.compact; have := ho.yaml12; have := ho.indent
-  have hbase : (if s.currentMapDepth.isSome = true then s.currentMapDepth.getD 0 else 0) = m := by
-    rcases h.cmd with hc | ⟨hc, hm⟩
+theorem ser_tupleVariant (n : List Char) (xs : List SVal) (s : St) :
+    ser o f (.tupleVariant n xs) s = variantRun o f n (ser o f (.seq xs)) s := by
+  rw [ser, variantRun, ser_seq]
+  generalize beginVariant o f n s = p
+  obtain ⟨fr, s1⟩ := p
+  simp only
+  generalize serializeSeq o s1 = p2
+  obtain ⟨q, s2⟩ := p2
+  simp only
+  cases serSeqElems o f q xs s2 with
+  | error e => rfl
+  | ok r => rfl
+
+theorem ser_structVariant (n : List Char) (fs : List (SVal × SVal)) (s : St) :
+    ser o f (.structVariant n fs) s = variantRun o f n (ser o f (.map true fs)) s := by
+  rw [ser, variantRun, ser_map]
+  generalize beginVariant o f n s = p
+  obtain ⟨fr, s1⟩ := p
+  simp only [if_true]
+  generalize serializeMap o (some fs.length) s1 = p2
+  obtain ⟨m, s2⟩ := p2
+  simp only
+  cases serMapEntries o f m fs s2 with
+  | error e => rfl
+  | ok r => rfl
+
+/-- `begin_variant` right after `key:`: the label goes to the next line one level deeper -/
+theorem beginVariant_val (ho : FragOpts o) (hf : SafeContract f) {s : St} {m c : Nat} (h : ValCtx o s m c) {n : List Char}
+    (hn : isSafeStr n = true) :
+    ∃ s3, beginVariant o f n s = ({ prevMapDepth := some s.currentMapDepth }, s3) ∧
+      ValCtx o s3 (m + 1) (c + o.indentStep) ∧
+      s3.out = s.out ++ ['\n'] ++ spaces (c + o.indentStep) ++ n ++ [':'] ∧
+      s3.lastValueWasBlock = s.lastValueWasBlock ∧ s3.indentShift = s.indentShift ∧ s3.currentMapDepth.isSome = true := by
+  have := h.als; have := h.psc; have := ho.yaml12
+  have := h.inFlow
+  have hic := indentCols_col h.col.succ
+  have hbase : s.currentMapDepth.getD s.depth = m := by
+    rcases h.cmd with hc | ⟨hc, hm, hd0⟩
     · simp [hc]
-    · simp [hc, hm]
-  cases hl : s.lastValueWasBlock
-  · refine ⟨_, rfl, ?_, ?_, ?_⟩
-    · simp [serializeSeq, takeFlow, seqEnd, newline, St.write, seqValOf, *]
-    · simp [serializeSeq, takeFlow, seqEnd, newline, St.write, seqValOf, *]
+    · simp [hc, hm, hd0]
+  refine ⟨{ afterKey s (m + 1) (['\n'] ++ spaces (c + o.indentStep) ++ n ++ [':']) true with afterDashDepth := s.afterDashDepth }, ?_, ?_, ?_, ?_, ?_, ?_⟩
+  · by_cases hd : s.docStarted = true <;>
+      simp [beginVariant, newline, writeIndent, hic, St.write, afterKey, plainOrQuoted_safe ho hf hn, List.append_assoc, *]
+  · constructor
+    · constructor <;> simp [afterKey, h.inFlow, h.pendingFlow, h.pss, h.pic]
+    all_goals first
+      | exact h.col.succ.of_shift rfl
+      | simp [afterKey, h.add]
+  · simp [afterKey, List.append_assoc]
+  · simp [afterKey]
+  · simp [afterKey]
+  · simp [afterKey]
+
+/-- `begin_variant` right after `- `: the label stays on the dash line, the payload is laid out
+under it (two columns after the dash) -/
+theorem beginVariant_item (ho : FragOpts o) (hf : SafeContract f) {s : St} {d c : Nat} (h : ItemCtx o s d c) {n : List Char}
+    (hn : isSafeStr n = true) :
+    ∃ s3, beginVariant o f n s = ({ prevMapDepth := some s.currentMapDepth, restoreShift := some s.indentShift }, s3) ∧
+      ValCtx o s3 (d + 1) (c + 2) ∧ s3.out = s.out ++ n ++ [':'] ∧ s3.lastValueWasBlock = s.lastValueWasBlock ∧
+      s3.currentMapDepth.isSome = true := by
+  have := h.als; have := h.psc; have := h.add; have := h.inFlow
+  refine ⟨shiftForInlineNode o (afterKey s (d + 1) (n ++ [':']) s.docStarted), ?_, ?_, ?_, ?_, ?_⟩
+  · simp [beginVariant, indentIfLineStart, St.write, afterKey, plainOrQuoted_safe ho hf hn, List.append_assoc,
+      shiftForInlineNode, *]
+  · constructor
+    · constructor <;> simp [shiftForInlineNode, afterKey, h.inFlow, h.pendingFlow, h.pss, h.pic]
+    all_goals first
+      | exact Col.inline (h.col.of_shift rfl)
+      | simp [shiftForInlineNode, afterKey]
+  · simp [shiftForInlineNode, afterKey, List.append_assoc]
+  · simp [shiftForInlineNode, afterKey]
+  · simp [shiftForInlineNode, afterKey]
+
+/-- `begin_variant` at the root: the label at column 0, the payload in `ValCtx _ 0 0` -/
+theorem beginVariant_root (ho : FragOpts o) (hf : SafeContract f) {n : List Char} (hn : isSafeStr n = true) :
+    ∃ s3, beginVariant o f n {} = ({}, s3) ∧ ValCtx o s3 0 0 ∧ s3.out = n ++ [':'] ∧ s3.lastValueWasBlock = false ∧
+      s3.currentMapDepth = none := by
+  have := ho.yaml12
+  have hc0 : Col o ({} : St) 0 0 := by simp [Col]
+  have hic := indentCols_col hc0
+  refine ⟨{ afterKey {} 0 (n ++ [':']) true with currentMapDepth := none }, ?_, ?_, ?_, ?_, ?_⟩
+  · simp [beginVariant, indentIfLineStart, writeIndent, hic, St.write, afterKey, plainOrQuoted_safe ho hf hn, spaces, *]
+  · constructor
+    · constructor <;> simp [afterKey]
+    all_goals first
+      | exact hc0.of_shift rfl
+      | simp [afterKey]
+  · simp [afterKey]
+  · simp [afterKey]
+  · simp [afterKey]
+
+/-! ### the invariant: statements -/
+
+/-- restoring `current_map_depth` (and `indent_shift`) after a nested value keeps the result shape -/
+theorem Good.restore {s s3 : St} {r : List Char × List Line × Bool} {res : Except EmitErr St}
+    (pre : List Char) (h : Good s3 r res) (hout : s3.out = s.out ++ pre) (rs : Option Int)
+    (hr : (rs = none ∧ s3.indentShift = s.indentShift) ∨ rs = some s.indentShift) :
+    ∃ s5, res = .ok s5 ∧
+      (restoreShift rs { s5 with currentMapDepth := s.currentMapDepth }).out = s.out ++ pre ++ r.1 ++ ['\n'] ++ renderLines r.2.1 ∧
+      (restoreShift rs { s5 with currentMapDepth := s.currentMapDepth }).lastValueWasBlock = r.2.2 ∧
+      Post s (restoreShift rs { s5 with currentMapDepth := s.currentMapDepth }) := by
+  obtain ⟨s5, he, ho5, hl5, hp5⟩ := h
+  have hsh := hp5.shift
+  refine ⟨s5, he, ?_, ?_, ?_⟩
+  · rcases hr with ⟨hr, _⟩ | hr <;> simp [hr, restoreShift, ho5, hout, List.append_assoc]
+  · rcases hr with ⟨hr, _⟩ | hr <;> simp [hr, restoreShift, hl5]
+  · rcases hr with ⟨hr, hs⟩ | hr
     · constructor
-      · constructor <;> simp [serializeSeq, takeFlow, seqEnd, newline, St.write, *, h.pss]
-      all_goals simp [serializeSeq, takeFlow, seqEnd, newline, St.write, *]
-  · refine ⟨_, rfl, ?_, ?_, ?_⟩
-    · by_cases hd : s.docStarted = true <;>
-        simp [serializeSeq, takeFlow, seqEnd, newline, writeIndent, St.write, seqValOf, col, *]
-    · by_cases hd : s.docStarted = true <;>
-        simp [serializeSeq, takeFlow, seqEnd, newline, writeIndent, St.write, seqValOf, *]
+      · constructor <;> simp [hr, restoreShift, hp5.inFlow, hp5.pendingFlow, hp5.pss, hp5.pic]
+      all_goals simp [hr, restoreShift, hp5.als, hp5.psc, hsh, hs]
     · constructor
-      · constructor <;> (by_cases hd : s.docStarted = true <;>
-          simp [serializeSeq, takeFlow, seqEnd, newline, writeIndent, St.write, *, h.pss])
-      all_goals (by_cases hd : s.docStarted = true <;>
-          simp [serializeSeq, takeFlow, seqEnd, newline, writeIndent, St.write, *])
+      · constructor <;> simp [hr, restoreShift, hp5.inFlow, hp5.pendingFlow, hp5.pss, hp5.pic]
+      all_goals simp [hr, restoreShift, hp5.als, hp5.psc]
+
+/-- value position (right after `key:`) -/
+def ValOK (o : Opts) (f : ScalarFns) (v : SVal) : Prop :=
+  ∀ (s : St) (m c : Nat), ValCtx o s m c →
+    Good s (layVal o.indentStep o.compactListIndent s.currentMapDepth.isSome c s.lastValueWasBlock v) (ser o f v s)
+/-- item position (right after `- `) -/
+def ItemOK (o : Opts) (f : ScalarFns) (v : SVal) : Prop :=
+  ∀ (s : St) (d c : Nat), ItemCtx o s d c → Good s (layItem o.indentStep o.compactListIndent c s.lastValueWasBlock v) (ser o f v s)
+/-- the items of a block sequence, each starting at a line start -/
+def ItemsOK (o : Opts) (f : ScalarFns) (xs : List SVal) : Prop :=
+  ∀ (s : St) (q : SeqSer) (c : Nat), q.flow = false → LineCtx s → Col o s q.depth c →
+    (q.first = true → s.pendingInlineMap = false) →
+    ∃ q' s', serSeqElems o f q xs s = .ok (q', s') ∧ q'.flow = false ∧ q'.depth = q.depth ∧
+      q'.restoreShift = q.restoreShift ∧
+      q'.first = (q.first && xs.isEmpty) ∧ GoodLines s (layItems o.indentStep o.compactListIndent c s.lastValueWasBlock xs) s'
+/-- the entries of a block mapping, each starting at a line start -/
+def EntriesOK (o : Opts) (f : ScalarFns) (es : List (SVal × SVal)) : Prop :=
+  ∀ (s : St) (m : MapSer) (c : Nat), m.flow = false → m.inlineValueStart = false → LineCtx s → Col o s m.depth c →
+    ∃ m' s', serMapEntries o f m es s = .ok (m', s') ∧ m'.flow = false ∧ m'.restoreShift = m.restoreShift ∧
+      m'.first = (m.first && es.isEmpty) ∧ GoodLines s (layEntries o.indentStep o.compactListIndent c s.lastValueWasBlock es) s'
+
+section
+variable (ho : FragOpts o) (hf : SafeContract f)
+include ho hf
+
+/-! ### leaves -/
+
+theorem leaf_val {v : SVal} {tok : List Char} (hser : ∀ s, s.pendingStrStyle = none → s.inFlow = 0 → ser o f v s = .ok (serToken o tok s))
+    (hlay : ∀ k cp im c lvb, layVal k cp im c lvb v = (' ' :: tok, [], false)) : ValOK o f v := by
+  intro s m c h
+  rw [hser s h.pss h.inFlow, hlay]
+  exact serToken_val (o := o) tok h
+
+theorem leaf_item {v : SVal} {tok : List Char} (hser : ∀ s, s.pendingStrStyle = none → s.inFlow = 0 → ser o f v s = .ok (serToken o tok s))
+    (hlay : ∀ k cp c lvb, layItem k cp c lvb v = (tok, [], false)) : ItemOK o f v := by
+  intro s d c h
+  rw [hser s h.pss h.inFlow, hlay]
+  exact serToken_item (o := o) tok h
+
+omit ho hf in
+theorem ser_unit_tok (s : St) : ser o f .unit s = .ok (serToken o "null".toList s) := by rw [ser]
+omit ho hf in
+theorem ser_none_tok (s : St) : ser o f .none s = .ok (serToken o "null".toList s) := by rw [ser]
+omit ho hf in
+theorem ser_bool_tok (b : Bool) (s : St) :
+    ser o f (.bool b) s = .ok (serToken o (if b then "true".toList else "false".toList) s) := by rw [ser]
+omit ho hf in
+theorem ser_int_tok (i : Int) (s : St) : ser o f (.int i) s = .ok (serToken o (intText i) s) := by rw [ser]
+
+theorem ser_str_tok {t : List Char} (h1 : isSafeStr t = true) (h2 : t.length ≤ o.foldedWrapCol) (s : St)
+    (hp : s.pendingStrStyle = none) (hi : s.inFlow = 0) : ser o f (.str t) s = .ok (serToken o t s) := by
+  rw [ser, serStr_safe ho hf h1 h2 hp hi]
+
+theorem ser_unitVariant_tok (e : List Char) {t : List Char} (h1 : isSafeStr t = true) (h2 : t.length ≤ o.foldedWrapCol) (s : St)
+    (hp : s.pendingStrStyle = none) (hi : s.inFlow = 0) : ser o f (.unitVariant e t) s = .ok (serToken o t s) := by
+  rw [ser]
+  simp only [ho.tagged, Bool.false_eq_true, if_false]
+  rw [serStr_safe ho hf h1 h2 hp hi]
+
+/-! ### sequences -/
+
+omit ho hf in
+theorem items_nil : ItemsOK o f [] := by
+  intro s q c hq h _ _
+  refine ⟨q, s, by rw [serSeqElems], hq, rfl, rfl, by simp, ?_, ?_, ?_⟩
+  · simp [layItems]
+  · simp [layItems]
+  · exact { toBase := h.toBase, als := h.als, psc := h.psc, cmd := rfl, shift := rfl }
+
+omit hf in
+theorem items_cons {x : SVal} {xs : List SVal} (hx : ItemOK o f x) (hxs : ItemsOK o f xs) : ItemsOK o f (x :: xs) := by
+  intro s q c hq h hcol hp
+  obtain ⟨qd, qf, qfirst, qrs⟩ := q
+  simp only at hq hcol
+  subst hq
+  rw [serSeqElems]
+  simp only [Bool.false_eq_true, if_false]
+  obtain ⟨hc3, hout3, hl3, hcmd3, hsh3⟩ := seqElemPrefix_line (o := o) (q := { depth := qd, flow := false, first := qfirst, restoreShift := qrs }) ho h rfl hcol hp
+  obtain ⟨sx, hex, houtx, hlx, hpx⟩ := hx _ qd c hc3
+  obtain ⟨q', s', he, hqf, hqd, hqr, hqfirst, hg⟩ :=
+    hxs sx { depth := qd, flow := false, first := false, restoreShift := qrs } c rfl (LineCtx.ofPost hpx)
+      (hcol.of_shift (by rw [hpx.shift, hsh3])) (by simp)
+  refine ⟨q', s', by rw [hex]; exact he, hqf, by simpa using hqd, by simpa using hqr, by simpa using hqfirst, ?_, ?_, ?_⟩
+  · rw [hg.1, houtx, hout3, hlx, hl3]
+    simp [layItems, renderLines_append, List.append_assoc]
+  · rw [hg.2.1, hlx, hl3]; simp [layItems]
+  · exact { toBase := hg.2.2.toBase, als := hg.2.2.als, psc := hg.2.2.psc,
+            cmd := by rw [hg.2.2.cmd, hpx.cmd, hcmd3], shift := by rw [hg.2.2.shift, hpx.shift, hsh3] }
+
+/-- empty sequence right after `key:`: ` []` on the line of the key -/
+theorem seq_empty_val {s : St} {m c : Nat} (h : ValCtx o s m c) :
+    Good s (" []".toList, [], false) (.ok (seqEnd o (serializeSeq o s).1 (serializeSeq o s).2)) := by
+  have := h.als; have := h.psc; have := h.inFlow; have := h.pendingFlow; have := h.add
+  have := ho.braces; have := ho.yaml12
+  refine ⟨_, rfl, ?_, ?_, ?_⟩
+  · cases hl : s.lastValueWasBlock <;> simp [serializeSeq, takeFlow, seqEnd, restoreShift, newline, St.write, *]
+  · cases hl : s.lastValueWasBlock <;> simp [serializeSeq, takeFlow, seqEnd, restoreShift, newline, St.write, *]
+  · constructor
+    · constructor <;> (cases hl : s.lastValueWasBlock <;> simp [serializeSeq, takeFlow, seqEnd, restoreShift, newline, St.write, *, h.pss])
+    all_goals (cases hl : s.lastValueWasBlock <;> simp [serializeSeq, takeFlow, seqEnd, restoreShift, newline, St.write, *])
 
 /-- empty sequence right after `- ` -/
-theorem seq_empty_item (ho : FragOpts o) {s : St} {d : Nat} (h : ItemCtx s d) :
+theorem seq_empty_item {s : St} {d c : Nat} (h : ItemCtx o s d c) :
     Good s ("[]".toList, [], s.lastValueWasBlock) (.ok (seqEnd o (serializeSeq o s).1 (serializeSeq o s).2)) := by
-  have := h.als; have := h.psc; have := h.inFlow; have := h.pendingFlow; have := h.depth; have := h.add
+  have := h.als; have := h.psc; have := h.inFlow; have := h.pendingFlow; have := h.add
   have := ho.braces
   refine ⟨_, rfl, ?_, ?_, ?_⟩
-  · simp [serializeSeq, takeFlow, seqEnd, newline, St.write, *]
-  · simp [serializeSeq, takeFlow, seqEnd, newline, St.write, *]
+  · simp [serializeSeq, takeFlow, seqEnd, restoreShift, newline, St.write, shiftForInlineNode, *]
+  · simp [serializeSeq, takeFlow, seqEnd, restoreShift, newline, St.write, shiftForInlineNode, *]
   · constructor
-    · constructor <;> simp [serializeSeq, takeFlow, seqEnd, newline, St.write, *, h.pss]
-    all_goals simp [serializeSeq, takeFlow, seqEnd, newline, St.write, *]
+    · constructor <;> simp [serializeSeq, takeFlow, seqEnd, restoreShift, newline, St.write, shiftForInlineNode, *, h.pss]
+    all_goals simp [serializeSeq, takeFlow, seqEnd, restoreShift, newline, St.write, shiftForInlineNode, *]
+
+omit ho hf in
+theorem serSeqElems_nil (q : SeqSer) (s : St) : serSeqElems o f q [] s = .ok (q, s) := by rw [serSeqElems]
+omit ho hf in
+theorem serMapEntries_nil (m : MapSer) (s : St) : serMapEntries o f m [] s = .ok (m, s) := by rw [serMapEntries]
+
+/-- a sequence right after `key:` -/
+theorem seq_val_step {xs : List SVal} (hxs : ItemsOK o f xs) (s : St) (m c : Nat) (h : ValCtx o s m c) :
+    Good s (seqValOf xs.isEmpty (layItems o.indentStep o.compactListIndent
+      (seqCol o.indentStep o.compactListIndent s.currentMapDepth.isSome c) false xs).1) (ser o f (.seq xs) s) := by
+  rw [ser_seq]
+  cases xs with
+  | nil =>
+    rw [serSeqElems_nil]
+    simpa [seqValOf] using seq_empty_val (o := o) (f := f) ho hf h
+  | cons x xs' =>
+    obtain ⟨s2, dq, heq, hc2, hp2, hout2, hl2, hcmd2, hsh2, hcolq⟩ := serializeSeq_val (f := f) ho h x xs'
+    obtain ⟨q', s', he, hqf, hqd, hqr, hqfirst, hg⟩ :=
+      hxs s2 { depth := dq, flow := false, first := true } _ rfl hc2 hcolq (fun _ => hp2)
+    rw [heq, he]
+    have hfirst : q'.first = false := by simpa using hqfirst
+    obtain ⟨hp, hout, hlvb⟩ := seqEnd_nonempty (o := o) (s0 := s) hqf hfirst hg.2.2.toBase hg.2.2.als hg.2.2.psc
+      (by rw [hg.2.2.cmd, hcmd2]) (Or.inl ⟨by simpa using hqr, by rw [hg.2.2.shift, hsh2]⟩)
+    refine ⟨_, rfl, ?_, ?_, hp⟩
+    · rw [hout, hg.1, hout2, hl2]; simp [seqValOf, List.append_assoc]
+    · rw [hlvb]; simp [seqValOf]
+
+/-- a sequence right after `- ` -/
+theorem seq_item_step {xs : List SVal} (hx : ∀ x ∈ xs.head?, ItemOK o f x) (hxs : ItemsOK o f xs.tail)
+    (s : St) (d c : Nat) (h : ItemCtx o s d c) :
+    Good s (laySeqItem o.indentStep o.compactListIndent c s.lastValueWasBlock xs) (ser o f (.seq xs) s) := by
+  rw [ser_seq]
+  obtain ⟨hq, hb1, hals1, hpsc1, hout1, hl1, hcmd1, hcol1⟩ := serializeSeq_item (o := o) h
+  cases xs with
+  | nil =>
+    rw [serSeqElems_nil]
+    simpa [laySeqItem] using seq_empty_item (o := o) (f := f) ho hf h
+  | cons x xs' =>
+    rw [serSeqElems, hq]
+    simp only [Bool.false_eq_true, if_false]
+    obtain ⟨hc3, hout3, hl3, hcmd3, hsh3⟩ := seqElemPrefix_inline (o := o)
+      (q := { depth := d + 1, flow := false, first := true, restoreShift := some s.indentShift }) hb1 hals1 hpsc1 rfl hcol1
+    obtain ⟨sx, hex, houtx, hlx, hpx⟩ := hx x (by simp) _ (d + 1) (c + 2) hc3
+    rw [hex]
+    have hxs' : ItemsOK o f xs' := hxs
+    obtain ⟨q', s', he, hqf, hqd, hqr, hqfirst, hg⟩ :=
+      hxs' sx { depth := d + 1, flow := false, first := false, restoreShift := some s.indentShift } (c + 2) rfl (LineCtx.ofPost hpx)
+        (hcol1.of_shift (by rw [hpx.shift, hsh3])) (by simp)
+    dsimp only
+    rw [he]
+    have hfirst : q'.first = false := by simpa using hqfirst
+    obtain ⟨hp, hout, hlvb⟩ := seqEnd_nonempty (o := o) (s0 := s) hqf hfirst hg.2.2.toBase hg.2.2.als hg.2.2.psc
+      (by rw [hg.2.2.cmd, hpx.cmd, hcmd3, hcmd1]) (Or.inr (by simpa using hqr))
+    refine ⟨_, rfl, ?_, ?_, hp⟩
+    · rw [hout, hg.1, houtx, hout3, hout1, hlx, hl3, hl1]
+      simp [laySeqItem, renderLines_append, List.append_assoc]
+    · rw [hlvb]; simp [laySeqItem]
+
+/-! ### mappings -/
+
+omit ho hf in
+theorem entries_nil : EntriesOK o f [] := by
+  intro s m c hm _ h _
+  refine ⟨m, s, by rw [serMapEntries], hm, rfl, by simp, ?_, ?_, ?_⟩
+  · simp [layEntries]
+  · simp [layEntries]
+  · exact { toBase := h.toBase, als := h.als, psc := h.psc, cmd := rfl, shift := rfl }
+
+theorem entries_cons {k : List Char} {v : SVal} {es : List (SVal × SVal)} (hk : isSafeStr k = true)
+    (hv : ValOK o f v) (hes : EntriesOK o f es) : EntriesOK o f ((.str k, v) :: es) := by
+  intro s m c hm hivs h hcol
+  obtain ⟨s4, hc4, hout4, hl4, hsh4, him4, heq⟩ := serMapEntries_cons_line (o := o) ho hf v es hk hm hivs h hcol
+  rw [heq]
+  obtain ⟨sv, hev, houtv, hlv, hpv⟩ := hv s4 m.depth c hc4
+  rw [him4] at houtv hlv
+  rw [hev]
+  obtain ⟨m', s', he, hmf, hmr, hmfirst, hg⟩ :=
+    hes { sv with currentMapDepth := s.currentMapDepth, pendingInlineMap := false }
+      { m with first := false, lastKeyComplex := false } c hm hivs
+      { toBase := ⟨hpv.inFlow, hpv.pendingFlow, hpv.pss, hpv.pic⟩, als := hpv.als, psc := hpv.psc }
+      (hcol.of_shift (by simp [hpv.shift, hsh4]))
+  refine ⟨m', s', he, hmf, by simpa using hmr, by simpa using hmfirst, ?_, ?_, ?_⟩
+  · rw [hg.1]
+    simp [houtv, hout4, hlv, hl4, layEntries, keyOf, renderLines_append, List.append_assoc]
+  · rw [hg.2.1]; simp [hlv, hl4, layEntries, keyOf]
+  · exact { toBase := hg.2.2.toBase, als := hg.2.2.als, psc := hg.2.2.psc, cmd := by rw [hg.2.2.cmd],
+            shift := by rw [hg.2.2.shift]; simp [hpv.shift, hsh4] }
+
+omit ho hf in
+/-- what the composite-entry machinery leaves behind for the next entry -/
+theorem complexEntryDone_line {s s0 s2 sv : St} (hpv : Post s2 sv) (hd : s0.depth = s.depth)
+    (hc : s0.currentMapDepth = s.currentMapDepth) (hp : s0.pendingInlineMap = false) :
+    LineCtx (complexEntryDone s0 sv) ∧ (complexEntryDone s0 sv).out = sv.out ∧
+    (complexEntryDone s0 sv).lastValueWasBlock = sv.lastValueWasBlock ∧
+    (complexEntryDone s0 sv).currentMapDepth = s.currentMapDepth ∧
+    (complexEntryDone s0 sv).indentShift = sv.indentShift := by
+  refine ⟨?_, rfl, rfl, by simp [complexEntryDone, hc], rfl⟩
+  constructor
+  · constructor <;> simp [complexEntryDone, hpv.inFlow, hpv.pendingFlow, hpv.pss, hpv.pic]
+  all_goals simp [complexEntryDone, hpv.als, hpv.psc]
+
+/-- an entry with a composite key at a line start -/
+theorem entries_cons_complex {k v : SVal} {es : List (SVal × SVal)} (hkc : isComplexKey k = true)
+    (hk : ItemOK o f k) (hv : ItemOK o f v) (hes : EntriesOK o f es) : EntriesOK o f ((k, v) :: es) := by
+  intro s m c hm hivs h hcol
+  obtain ⟨hm1, hc1, hout1, hl1, hsh1, hd0, hcmd0, hpim0, hadd0⟩ := complexKey_line (o := o) ho hivs h hcol
+  rw [serMapEntries_complex m k v es s hm (keyText_complex k hkc), hm1]
+  obtain ⟨sk, hek, houtk, hlk, hpk⟩ := hk _ m.depth c hc1
+  rw [hek]
+  dsimp only
+  obtain ⟨hc2, hout2, hl2, hsh2⟩ := complexValue_ctx (o := o) ho (m := m) (s0 := complexKeyMark o m (mapKeyPrefix m s).2)
+    hpk.toBase hpk.als (hcol.of_shift (by rw [hpk.shift, hsh1]))
+  obtain ⟨sv, hev, houtv, hlv, hpv⟩ := hv _ m.depth c hc2
+  rw [hev]
+  dsimp only
+  obtain ⟨hc3, hout3, hl3, hcmd3, hsh3⟩ := complexEntryDone_line (s := s) hpv hd0 hcmd0 hpim0
+  obtain ⟨m', s', he, hmf, hmr, hmfirst, hg⟩ :=
+    hes _ { m with first := false, lastKeyComplex := false } c hm hivs hc3
+      (hcol.of_shift (by rw [hsh3, hpv.shift, hsh2, hpk.shift, hsh1]))
+  refine ⟨m', s', he, hmf, by simpa using hmr, by simpa using hmfirst, ?_, ?_, ?_⟩
+  · rw [hg.1, hout3, houtv, hout2, houtk, hout1, hl3, hlv, hl2, hl1]
+    simp [layEntries, keyOf_complex k hkc, renderLines_append, List.append_assoc]
+  · rw [hg.2.1, hl3, hlv, hl2]; simp [layEntries, keyOf_complex k hkc]
+  · exact { toBase := hg.2.2.toBase, als := hg.2.2.als, psc := hg.2.2.psc, cmd := by rw [hg.2.2.cmd, hcmd3],
+            shift := by rw [hg.2.2.shift, hsh3, hpv.shift, hsh2, hpk.shift, hsh1] }
 
 /-- empty mapping right after `key:` -/
-theorem map_empty_val (ho : FragOpts o) {s : St} {m : Nat} (h : ValCtx s m) (len : Option Nat)
+theorem map_empty_val {s : St} {m c : Nat} (h : ValCtx o s m c) (len : Option Nat)
     (hlen : len = some 0 ∨ len = none) :
-    Good s (if s.lastValueWasBlock then ([], [⟨col (m + 1), "{}".toList⟩], false) else (" {}".toList, [], false))
+    Good s (mapValOf (c + o.indentStep) s.lastValueWasBlock true [])
       (.ok (mapEnd o (serializeMap o len s).1 (serializeMap o len s).2)) := by
-  have := h.als; have := h.psc; have := h.inFlow; have := h.pendingFlow; have := h.depth; have := h.pim
-  have := ho.braces; have := ho.yaml12; have := ho.indent
-  have hbase : (if s.currentMapDepth.isSome = true then s.currentMapDepth.getD 0 else 0) = m := by
-    rcases h.cmd with hc | ⟨hc, hm⟩
+  have := h.als; have := h.psc; have := h.inFlow; have := h.pendingFlow; have := h.pim
+  have := ho.braces; have := ho.yaml12
+  have hic := indentCols_col h.col.succ
+  have hbase : (if s.currentMapDepth.isSome = true then s.currentMapDepth.getD s.depth else s.depth) = m := by
+    rcases h.cmd with hc | ⟨hc, hm, hd0⟩
     · simp [hc]
-    · simp [hc, hm]
+    · simp [hc, hm, hd0]
   rcases hlen with rfl | rfl <;> cases hl : s.lastValueWasBlock
   all_goals refine ⟨_, rfl, ?_, ?_, ?_⟩
   all_goals first
     | (constructor
        · constructor <;> (by_cases hd : s.docStarted = true <;>
-           simp [serializeMap, takeFlow, mapEnd, mapIndent, newline, writeIndent, St.write, *, h.pss, h.pic])
+           simp [serializeMap, takeFlow, mapEnd, restoreShift, mapIndent, newline, writeIndent, St.write, *, h.pss, h.pic])
        all_goals (by_cases hd : s.docStarted = true <;>
-           simp [serializeMap, takeFlow, mapEnd, mapIndent, newline, writeIndent, St.write, *]))
+           simp [serializeMap, takeFlow, mapEnd, restoreShift, mapIndent, newline, writeIndent, St.write, *]))
     | (by_cases hd : s.docStarted = true <;>
-        simp [serializeMap, takeFlow, mapEnd, mapIndent, newline, writeIndent, St.write, col, *])
+        simp [serializeMap, takeFlow, mapEnd, restoreShift, mapIndent, newline, writeIndent, hic, St.write, mapValOf, *])
 
 /-- empty mapping right after `- ` -/
-theorem map_empty_item (ho : FragOpts o) {s : St} {d : Nat} (h : ItemCtx s d) (len : Option Nat) :
+theorem map_empty_item {s : St} {d c : Nat} (h : ItemCtx o s d c) (len : Option Nat) :
     Good s ("{}".toList, [], s.lastValueWasBlock) (.ok (mapEnd o (serializeMap o len s).1 (serializeMap o len s).2)) := by
-  have := h.als; have := h.psc; have := h.inFlow; have := h.pendingFlow; have := h.depth; have := h.add
+  have := h.als; have := h.psc; have := h.inFlow; have := h.pendingFlow; have := h.add
   have := h.pim; have := ho.braces
   refine ⟨_, rfl, ?_, ?_, ?_⟩
-  · simp [serializeMap, takeFlow, mapEnd, newline, St.write, *]
-  · simp [serializeMap, takeFlow, mapEnd, newline, St.write, *]
+  · simp [serializeMap, takeFlow, mapEnd, restoreShift, newline, St.write, shiftForInlineNode, *]
+  · simp [serializeMap, takeFlow, mapEnd, restoreShift, newline, St.write, shiftForInlineNode, *]
   · constructor
-    · constructor <;> simp [serializeMap, takeFlow, mapEnd, newline, St.write, *, h.pss, h.pic]
-    all_goals simp [serializeMap, takeFlow, mapEnd, newline, St.write, *]
+    · constructor <;> simp [serializeMap, takeFlow, mapEnd, restoreShift, newline, St.write, shiftForInlineNode, *, h.pss, h.pic]
+    all_goals simp [serializeMap, takeFlow, mapEnd, restoreShift, newline, St.write, shiftForInlineNode, *]
+
+/-- a mapping right after `key:` -/
+theorem map_val_step (known : Bool) {es : List (SVal × SVal)} (hes : EntriesOK o f es) (s : St) (m c : Nat) (h : ValCtx o s m c) :
+    Good s (mapValOf (c + o.indentStep) s.lastValueWasBlock es.isEmpty (layEntries o.indentStep o.compactListIndent (c + o.indentStep) false es).1)
+      (ser o f (.map known es) s) := by
+  rw [ser_map]
+  cases es with
+  | nil =>
+    rw [serMapEntries_nil]
+    have := map_empty_val (o := o) (f := f) ho hf h (if known then some ([] : List (SVal × SVal)).length else none)
+      (by cases known <;> simp)
+    simpa [layEntries] using this
+  | cons e es' =>
+    obtain ⟨s2, heq, hc2, hout2, hl2, hcmd2, hsh2⟩ := serializeMap_val (f := f) ho h known e es'
+    obtain ⟨m', s', he, hmf, hmr, hmfirst, hg⟩ :=
+      hes s2 { depth := m + 1, flow := false, first := true } (c + o.indentStep) rfl rfl hc2 (h.col.succ.of_shift hsh2)
+    rw [heq, he]
+    have hfirst : m'.first = false := by simpa using hmfirst
+    obtain ⟨hp, hout, hlvb⟩ := mapEnd_nonempty (o := o) (s0 := s) hmf hfirst hg.2.2.toBase hg.2.2.als hg.2.2.psc
+      (by rw [hg.2.2.cmd, hcmd2]) (Or.inl ⟨by simpa using hmr, by rw [hg.2.2.shift, hsh2]⟩)
+    refine ⟨_, rfl, ?_, ?_, hp⟩
+    · rw [hout, hg.1, hout2, hl2]; simp [mapValOf, List.append_assoc]
+    · rw [hlvb]; simp [mapValOf]
+
+/-- a mapping right after `- ` -/
+theorem map_item_step (known : Bool) {es : List (SVal × SVal)}
+    (he1 : ∀ e ∈ es.head?, (∃ k, e.1 = .str k ∧ isSafeStr k = true) ∧ ValOK o f e.2) (hes : EntriesOK o f es.tail)
+    (s : St) (d c : Nat) (h : ItemCtx o s d c) :
+    Good s (layMapItem o.indentStep o.compactListIndent c s.lastValueWasBlock es) (ser o f (.map known es) s) := by
+  rw [ser_map]
+  generalize (if known = true then some es.length else none) = len
+  cases es with
+  | nil =>
+    rw [serMapEntries_nil]
+    simpa [layMapItem] using map_empty_item (o := o) (f := f) ho hf h len
+  | cons e es' =>
+    obtain ⟨hm1, hb1, hals1, hpsc1, hout1, hl1, hcmd1, hcol1⟩ := serializeMap_item (o := o) len h
+    obtain ⟨⟨kt, hke, hk⟩, hvv⟩ := he1 e (by simp)
+    obtain ⟨k, v⟩ := e
+    simp only at hke hvv
+    subst hke
+    rw [hm1]
+    obtain ⟨s4, hc4, hout4, hl4, hsh4, him4, heq⟩ := serMapEntries_cons_inline (o := o) hf
+      (m := { depth := d + 1, flow := false, first := true, restoreShift := some s.indentShift }) v es' hk rfl rfl hb1 hals1 hpsc1 hcol1
+    rw [heq]
+    obtain ⟨sv, hev, houtv, hlv, hpv⟩ := hvv s4 (d + 1) (c + 2) hc4
+    rw [him4] at houtv hlv
+    rw [hev]
+    have hes' : EntriesOK o f es' := hes
+    obtain ⟨m', s', he, hmf, hmr, hmfirst, hg⟩ :=
+      hes'
+        { sv with currentMapDepth := (serializeMap o len s).2.currentMapDepth, pendingInlineMap := false }
+        { depth := d + 1, flow := false, first := false, lastKeyComplex := false, restoreShift := some s.indentShift }
+        (c + 2) rfl rfl
+        { toBase := ⟨hpv.inFlow, hpv.pendingFlow, hpv.pss, hpv.pic⟩, als := hpv.als, psc := hpv.psc }
+        (hcol1.of_shift (by simp [hpv.shift, hsh4]))
+    dsimp only
+    rw [he]
+    have hfirst : m'.first = false := by simpa using hmfirst
+    obtain ⟨hp, hout, hlvb⟩ := mapEnd_nonempty (o := o) (s0 := s) hmf hfirst hg.2.2.toBase hg.2.2.als hg.2.2.psc
+      (by rw [hg.2.2.cmd]; exact hcmd1) (Or.inr (by simpa using hmr))
+    refine ⟨_, rfl, ?_, ?_, hp⟩
+    · rw [hout, hg.1]
+      simp [houtv, hout4, hout1, hlv, hl4, layMapItem, keyOf, renderLines_append, List.append_assoc]
+    · rw [hlvb]; simp [layMapItem, keyOf]
+
+/-- a mapping right after `- ` whose first key is composite: `- ? key` -/
+theorem map_item_step_complex (known : Bool) {k v : SVal} {es : List (SVal × SVal)} (hkc : isComplexKey k = true)
+    (hk : ItemOK o f k) (hv : ItemOK o f v) (hes : EntriesOK o f es)
+    (s : St) (d c : Nat) (h : ItemCtx o s d c) :
+    Good s (layMapItem o.indentStep o.compactListIndent c s.lastValueWasBlock ((k, v) :: es)) (ser o f (.map known ((k, v) :: es)) s) := by
+  rw [ser_map]
+  generalize (if known = true then some ((k, v) :: es).length else none) = len
+  obtain ⟨hm1, hb1, hals1, hpsc1, hout1, hl1, hcmd1, hcol1⟩ := serializeMap_item (o := o) len h
+  rw [hm1]
+  obtain ⟨hmk, hck, houtk0, hlk0, hshk0, hd0, hcmd0, hpim0, hadd0⟩ := complexKey_inline (o := o)
+    (m := { depth := d + 1, flow := false, first := true, restoreShift := some s.indentShift }) rfl hb1 hals1 hpsc1 hcol1
+  rw [serMapEntries_complex _ k v es _ rfl (keyText_complex k hkc), hmk]
+  obtain ⟨sk, hek, houtk, hlk, hpk⟩ := hk _ (d + 1) (c + 2) hck
+  rw [hek]
+  dsimp only
+  obtain ⟨hc2, hout2, hl2, hsh2⟩ := complexValue_ctx (o := o) ho
+    (m := { depth := d + 1, flow := false, first := true, restoreShift := some s.indentShift })
+    (s0 := complexKeyMark o { depth := d + 1, flow := false, first := true, restoreShift := some s.indentShift }
+      (mapKeyPrefix { depth := d + 1, flow := false, first := true, restoreShift := some s.indentShift } (serializeMap o len s).2).2)
+    hpk.toBase hpk.als (hcol1.of_shift (by rw [hpk.shift, hshk0]))
+  obtain ⟨sv, hev, houtv, hlv, hpv⟩ := hv _ (d + 1) (c + 2) hc2
+  rw [hev]
+  dsimp only
+  obtain ⟨hc3, hout3, hl3, hcmd3, hsh3⟩ := complexEntryDone_line (s := (serializeMap o len s).2) hpv hd0 hcmd0 hpim0
+  obtain ⟨m', s', he, hmf, hmr, hmfirst, hg⟩ :=
+    hes _ { depth := d + 1, flow := false, first := false, lastKeyComplex := false, restoreShift := some s.indentShift }
+      (c + 2) rfl rfl hc3 (hcol1.of_shift (by rw [hsh3, hpv.shift, hsh2, hpk.shift, hshk0]))
+  rw [he]
+  have hfirst : m'.first = false := by simpa using hmfirst
+  obtain ⟨hp, hout, hlvb⟩ := mapEnd_nonempty (o := o) (s0 := s) hmf hfirst hg.2.2.toBase hg.2.2.als hg.2.2.psc
+    (by rw [hg.2.2.cmd, hcmd3]; exact hcmd1) (Or.inr (by simpa using hmr))
+  refine ⟨_, rfl, ?_, ?_, hp⟩
+  · rw [hout, hg.1, hout3, houtv, hout2, houtk, houtk0, hout1, hl3, hlv, hl2, hlk0]
+    simp [layMapItem, keyOf_complex k hkc, renderLines_append, List.append_assoc]
+  · rw [hlvb]; simp [layMapItem, keyOf_complex k hkc]
+
+/-! ### variants -/
+
+/-- `Variant: payload` right after `key:` -/
+theorem variant_val_step {n : List Char} (hn : isSafeStr n = true) {P : St → Except EmitErr St}
+    {r : Nat → Bool → Bool → List Char × List Line × Bool}
+    (hP : ∀ (s3 : St) (m c : Nat), ValCtx o s3 m c → Good s3 (r c s3.currentMapDepth.isSome s3.lastValueWasBlock) (P s3))
+    (s : St) (m c : Nat) (h : ValCtx o s m c) :
+    Good s (variantVal (c + o.indentStep) n (r (c + o.indentStep) true s.lastValueWasBlock)) (variantRun o f n P s) := by
+  obtain ⟨s3, hbv, hc3, ho3, hl3, hsh3, him3⟩ := beginVariant_val ho hf h hn
+  have ih := hP s3 (m + 1) (c + o.indentStep) hc3
+  rw [hl3, him3] at ih
+  obtain ⟨s5, he, hout, hlvb, hpost⟩ :=
+    Good.restore (s := s) (['\n'] ++ spaces (c + o.indentStep) ++ n ++ [':']) ih (by rw [ho3]; simp [List.append_assoc])
+      none (Or.inl ⟨rfl, hsh3⟩)
+  rw [variantRun, hbv]
+  simp only [he]
+  refine ⟨_, rfl, ?_, ?_, ?_⟩
+  · simp only [endVariant, Bool.false_eq_true, if_false]
+    rw [hout]; simp [variantVal, List.append_assoc]
+  · simp only [endVariant, Bool.false_eq_true, if_false]
+    rw [hlvb]; simp [variantVal]
+  · simpa only [endVariant, Bool.false_eq_true, if_false] using hpost
+
+/-- `Variant: payload` right after `- ` -/
+theorem variant_item_step {n : List Char} (hn : isSafeStr n = true) {P : St → Except EmitErr St}
+    {r : Nat → Bool → Bool → List Char × List Line × Bool}
+    (hP : ∀ (s3 : St) (m c : Nat), ValCtx o s3 m c → Good s3 (r c s3.currentMapDepth.isSome s3.lastValueWasBlock) (P s3))
+    (s : St) (d c : Nat) (h : ItemCtx o s d c) :
+    Good s (variantItem n (r (c + 2) true s.lastValueWasBlock)) (variantRun o f n P s) := by
+  obtain ⟨s3, hbv, hc3, ho3, hl3, him3⟩ := beginVariant_item ho hf h hn
+  have ih := hP s3 (d + 1) (c + 2) hc3
+  rw [hl3, him3] at ih
+  obtain ⟨s5, he, hout, hlvb, hpost⟩ := Good.restore (s := s) (n ++ [':']) ih (by rw [ho3]; simp [List.append_assoc])
+    (some s.indentShift) (Or.inr rfl)
+  rw [variantRun, hbv]
+  simp only [he]
+  refine ⟨_, rfl, ?_, ?_, ?_⟩
+  · simp only [endVariant, Bool.false_eq_true, if_false]
+    rw [hout]; simp [variantItem, List.append_assoc]
+  · simp only [endVariant, Bool.false_eq_true, if_false]
+    rw [hlvb]; simp [variantItem]
+  · simpa only [endVariant, Bool.false_eq_true, if_false] using hpost
+
+end
+
 
 /-! ### the invariant -/
-
-/-- restoring `current_map_depth` after a nested value keeps the result shape -/
-theorem Good.restore {s s3 : St} {r : List Char × List Line × Bool} {res : Except EmitErr St}
-    (pre : List Char) (h : Good s3 r res) (hout : s3.out = s.out ++ pre) :
-    ∃ s5, res = .ok s5 ∧
-      ({ s5 with currentMapDepth := s.currentMapDepth } : St).out = s.out ++ pre ++ r.1 ++ ['\n'] ++ renderLines r.2.1 ∧
-      ({ s5 with currentMapDepth := s.currentMapDepth } : St).lastValueWasBlock = r.2.2 ∧
-      Post s { s5 with currentMapDepth := s.currentMapDepth } := by
-  obtain ⟨s5, he, ho5, hl5, hp5⟩ := h
-  refine ⟨s5, he, ?_, ?_, ?_⟩
-  · simp [ho5, hout, List.append_assoc]
-  · simp [hl5]
-  · constructor
-    · constructor <;> simp [hp5.depth, hp5.inFlow, hp5.pendingFlow, hp5.pss, hp5.pic]
-    all_goals simp [hp5.als, hp5.psc]
-
-theorem wsp_pss (s : St) : (writeSpaceIfPending s).pendingStrStyle = s.pendingStrStyle := by
-  unfold writeSpaceIfPending; split <;> simp [St.write]
-theorem wsp_inFlow (s : St) : (writeSpaceIfPending s).inFlow = s.inFlow := by
-  unfold writeSpaceIfPending; split <;> simp [St.write]
 
 section
 variable (ho : FragOpts o) (hf : SafeContract f)
@@ -589,299 +1214,171 @@ include ho hf
 
 mutual
 /-- value position (right after `key:`) -/
-theorem ser_val : ∀ (v : SVal), inFrag o.foldedWrapCol v = true → ∀ (s : St) (m : Nat), ValCtx s m →
-    Good s (layVal m s.lastValueWasBlock v) (ser o f v s)
-  | .unit, _, s, m, h => by rw [ser]; simpa [layVal] using serToken_val (o := o) "null".toList h
-  | .none, _, s, m, h => by rw [ser]; simpa [layVal] using serToken_val (o := o) "null".toList h
-  | .bool b, _, s, m, h => by
-    rw [ser]; simpa [layVal] using serToken_val (o := o) (if b then "true".toList else "false".toList) h
-  | .int i, _, s, m, h => by rw [ser]; simpa [layVal] using serToken_val (o := o) (intText i) h
-  | .str t, hv, s, m, h => by
+theorem ser_val : ∀ (v : SVal), inFrag o.foldedWrapCol v = true → ValOK o f v
+  | .unit, _ => leaf_val ho hf (fun s _ _ => ser_unit_tok s) (fun _ _ _ _ _ => by simp [layVal])
+  | .none, _ => leaf_val ho hf (fun s _ _ => ser_none_tok s) (fun _ _ _ _ _ => by simp [layVal])
+  | .bool b, _ => leaf_val ho hf (fun s _ _ => ser_bool_tok b s) (fun _ _ _ _ _ => by simp [layVal])
+  | .int i, _ => leaf_val ho hf (fun s _ _ => ser_int_tok i s) (fun _ _ _ _ _ => by simp [layVal])
+  | .str t, hv => by
     simp only [inFrag, Bool.and_eq_true, decide_eq_true_eq] at hv
-    rw [ser, serStr_safe ho hf hv.1 hv.2 h.pss h.inFlow]
-    simpa [layVal] using serToken_val (o := o) t h
-  | .unitVariant e n, hv, s, m, h => by
+    exact leaf_val ho hf (ser_str_tok ho hf hv.1 hv.2) (fun _ _ _ _ _ => by simp [layVal])
+  | .unitVariant e n, hv => by
     simp only [inFrag, Bool.and_eq_true, decide_eq_true_eq] at hv
-    rw [ser]
-    simp only [ho.tagged, Bool.false_eq_true, if_false]
-    rw [serStr_safe ho hf hv.1 hv.2 (by rw [wsp_pss]; exact h.pss) (by rw [wsp_inFlow]; exact h.inFlow), serToken_wsp]
-    simpa [layVal] using serToken_val (o := o) n h
-  | .some v, hv, s, m, h => by
+    exact leaf_val ho hf (ser_unitVariant_tok ho hf e hv.1 hv.2) (fun _ _ _ _ _ => by simp [layVal])
+  | .some v, hv => by
     simp only [inFrag] at hv
-    rw [ser]; simpa [layVal] using ser_val v hv s m h
-  | .newtypeStruct v, hv, s, m, h => by
+    intro s m c h
+    rw [ser]; simpa [layVal] using ser_val v hv s m c h
+  | .newtypeStruct v, hv => by
     simp only [inFrag] at hv
-    rw [ser]; simpa [layVal] using ser_val v hv s m h
-  | .newtypeVariant n v, hv, s, m, h => by
-    simp only [inFrag, Bool.and_eq_true] at hv
-    obtain ⟨s3, hc3, ho3, hl3, heq⟩ := nv_val ho hf h hv.1 v
-    have ih := ser_val v hv.2 s3 (m + 1) hc3
-    rw [hl3] at ih
-    obtain ⟨s5, he, hout, hlvb, hpost⟩ :=
-      Good.restore (s := s) (['\n'] ++ spaces (col (m + 1)) ++ n ++ [':']) ih (by rw [ho3]; simp [List.append_assoc])
-    rw [heq, he]
-    refine ⟨_, rfl, ?_, ?_, hpost⟩
-    · rw [hout]; simp [layVal, List.append_assoc]
-    · rw [hlvb]; simp [layVal]
-  | .seq xs, hv, s, m, h => by
+    intro s m c h
+    rw [ser]; simpa [layVal] using ser_val v hv s m c h
+  | .seq xs, hv => by
     simp only [inFrag] at hv
-    rw [ser_seq]
-    cases xs with
-    | nil =>
-      rw [serSeqElems_nil]
-      simpa [layVal, layItems] using seq_empty_val (o := o) ho h
-    | cons x xs' =>
-      obtain ⟨s2, heq, hc2, hp2, hout2, hl2, hcmd2⟩ := serializeSeq_val (f := f) ho h x xs'
-      obtain ⟨q', s', he, hqf, hqd, hqfirst, hg⟩ :=
-        ser_items (x :: xs') hv s2 { depth := m + 1, flow := false, first := true } rfl hc2 (fun _ => hp2)
-      rw [heq, he]
-      have hfirst : q'.first = false := by simpa using hqfirst
-      have hpost : Post s s' := { toBase := hg.2.2.toBase, als := hg.2.2.als, psc := hg.2.2.psc, cmd := by rw [hg.2.2.cmd, hcmd2] }
-      obtain ⟨hp, hout, hlvb⟩ := seqEnd_nonempty (o := o) hqf hfirst hpost
-      refine ⟨_, rfl, ?_, ?_, hp⟩
-      · rw [hout, hg.1, hout2, hl2]; simp [layVal, seqValOf, List.append_assoc]
-      · rw [hlvb]; simp [layVal, seqValOf]
-  | .tuple xs, hv, s, m, h => by
+    intro s m c h
+    simpa [layVal] using seq_val_step ho hf (ser_items xs hv) s m c h
+  | .tuple xs, hv => by
     simp only [inFrag] at hv
+    intro s m c h
     rw [ser_tuple]
-    cases xs with
-    | nil =>
-      rw [serSeqElems_nil]
-      simpa [layVal, layItems] using seq_empty_val (o := o) ho h
-    | cons x xs' =>
-      obtain ⟨s2, heq, hc2, hp2, hout2, hl2, hcmd2⟩ := serializeSeq_val (f := f) ho h x xs'
-      obtain ⟨q', s', he, hqf, hqd, hqfirst, hg⟩ :=
-        ser_items (x :: xs') hv s2 { depth := m + 1, flow := false, first := true } rfl hc2 (fun _ => hp2)
-      rw [heq, he]
-      have hfirst : q'.first = false := by simpa using hqfirst
-      have hpost : Post s s' := { toBase := hg.2.2.toBase, als := hg.2.2.als, psc := hg.2.2.psc, cmd := by rw [hg.2.2.cmd, hcmd2] }
-      obtain ⟨hp, hout, hlvb⟩ := seqEnd_nonempty (o := o) hqf hfirst hpost
-      refine ⟨_, rfl, ?_, ?_, hp⟩
-      · rw [hout, hg.1, hout2, hl2]; simp [layVal, seqValOf, List.append_assoc]
-      · rw [hlvb]; simp [layVal, seqValOf]
-  | .map known es, hv, s, m, h => by
+    simpa [layVal] using seq_val_step ho hf (ser_items xs hv) s m c h
+  | .tupleStruct xs, hv => by
+    simp only [inFrag] at hv
+    intro s m c h
+    rw [ser_tupleStruct]
+    simpa [layVal] using seq_val_step ho hf (ser_items xs hv) s m c h
+  | .map known es, hv => by
     simp only [inFrag, Bool.and_eq_true] at hv
-    rw [ser_map]
-    cases es with
-    | nil =>
-      rw [serMapEntries_nil]
-      have := map_empty_val (o := o) ho h (if known then some ([] : List (SVal × SVal)).length else none)
-        (by cases known <;> simp)
-      simpa [layVal] using this
-    | cons e es' =>
-      obtain ⟨s2, heq, hc2, hout2, hl2, hcmd2⟩ := serializeMap_val (f := f) ho h known e es'
-      obtain ⟨m', s', he, hmf, hmfirst, hg⟩ :=
-        ser_entries (e :: es') hv.1 s2 { depth := m + 1, flow := false, first := true } rfl rfl (by simp) hc2
-      rw [heq, he]
-      have hfirst : m'.first = false := by simpa using hmfirst
-      have hpost : Post s s' := { toBase := hg.2.2.toBase, als := hg.2.2.als, psc := hg.2.2.psc, cmd := by rw [hg.2.2.cmd, hcmd2] }
-      obtain ⟨hp, hout, hlvb⟩ := mapEnd_nonempty (o := o) hmf hfirst hpost
-      refine ⟨_, rfl, ?_, ?_, hp⟩
-      · rw [hout, hg.1, hout2, hl2]; simp [layVal, List.append_assoc]
-      · rw [hlvb]; simp [layVal]
-  | .tupleStruct _, hv, _, _, _ => by simp [inFrag] at hv
-  | .tupleVariant _ _, hv, _, _, _ => by simp [inFrag] at hv
-  | .structVariant _ _, hv, _, _, _ => by simp [inFrag] at hv
-  | .flowSeq _, hv, _, _, _ => by simp [inFrag] at hv
-  | .flowMap _, hv, _, _, _ => by simp [inFrag] at hv
-  | .commented _ _, hv, _, _, _ => by simp [inFrag] at hv
-  | .spaceAfter _, hv, _, _, _ => by simp [inFrag] at hv
-  | .litStr _, hv, _, _, _ => by simp [inFrag] at hv
-  | .foldStr _, hv, _, _, _ => by simp [inFrag] at hv
+    intro s m c h
+    simpa [layVal] using map_val_step ho hf known (ser_entries es hv.1) s m c h
+  | .newtypeVariant n v, hv => by
+    simp only [inFrag, Bool.and_eq_true] at hv
+    intro s m c h
+    rw [ser_newtypeVariant]
+    simpa [layVal] using variant_val_step ho hf hv.1 (P := ser o f v) (r := fun c im lvb => layVal o.indentStep o.compactListIndent im c lvb v)
+      (ser_val v hv.2) s m c h
+  | .tupleVariant n xs, hv => by
+    simp only [inFrag, Bool.and_eq_true] at hv
+    intro s m c h
+    rw [ser_tupleVariant]
+    simpa [layVal] using variant_val_step ho hf hv.1 (P := ser o f (.seq xs))
+      (r := fun c im _ => seqValOf xs.isEmpty (layItems o.indentStep o.compactListIndent (seqCol o.indentStep o.compactListIndent im c) false xs).1)
+      (seq_val_step ho hf (ser_items xs hv.2)) s m c h
+  | .structVariant n fs, hv => by
+    simp only [inFrag, Bool.and_eq_true] at hv
+    intro s m c h
+    rw [ser_structVariant]
+    simpa [layVal] using variant_val_step ho hf hv.1 (P := ser o f (.map true fs))
+      (r := fun c _ lvb => mapValOf (c + o.indentStep) lvb fs.isEmpty (layEntries o.indentStep o.compactListIndent (c + o.indentStep) false fs).1)
+      (map_val_step ho hf true (ser_entries fs hv.2.1)) s m c h
+  | .flowSeq _, hv => by simp [inFrag] at hv
+  | .flowMap _, hv => by simp [inFrag] at hv
+  | .commented _ _, hv => by simp [inFrag] at hv
+  | .spaceAfter _, hv => by simp [inFrag] at hv
+  | .litStr _, hv => by simp [inFrag] at hv
+  | .foldStr _, hv => by simp [inFrag] at hv
 /-- item position (right after `- `) -/
-theorem ser_item : ∀ (v : SVal), inFrag o.foldedWrapCol v = true → ∀ (s : St) (d : Nat), ItemCtx s d →
-    Good s (layItem d s.lastValueWasBlock v) (ser o f v s)
-  | .unit, _, s, d, h => by rw [ser]; simpa [layItem] using serToken_item (o := o) "null".toList h
-  | .none, _, s, d, h => by rw [ser]; simpa [layItem] using serToken_item (o := o) "null".toList h
-  | .bool b, _, s, d, h => by
-    rw [ser]; simpa [layItem] using serToken_item (o := o) (if b then "true".toList else "false".toList) h
-  | .int i, _, s, d, h => by rw [ser]; simpa [layItem] using serToken_item (o := o) (intText i) h
-  | .str t, hv, s, d, h => by
+theorem ser_item : ∀ (v : SVal), inFrag o.foldedWrapCol v = true → ItemOK o f v
+  | .unit, _ => leaf_item ho hf (fun s _ _ => ser_unit_tok s) (fun _ _ _ _ => by simp [layItem])
+  | .none, _ => leaf_item ho hf (fun s _ _ => ser_none_tok s) (fun _ _ _ _ => by simp [layItem])
+  | .bool b, _ => leaf_item ho hf (fun s _ _ => ser_bool_tok b s) (fun _ _ _ _ => by simp [layItem])
+  | .int i, _ => leaf_item ho hf (fun s _ _ => ser_int_tok i s) (fun _ _ _ _ => by simp [layItem])
+  | .str t, hv => by
     simp only [inFrag, Bool.and_eq_true, decide_eq_true_eq] at hv
-    rw [ser, serStr_safe ho hf hv.1 hv.2 h.pss h.inFlow]
-    simpa [layItem] using serToken_item (o := o) t h
-  | .unitVariant e n, hv, s, d, h => by
+    exact leaf_item ho hf (ser_str_tok ho hf hv.1 hv.2) (fun _ _ _ _ => by simp [layItem])
+  | .unitVariant e n, hv => by
     simp only [inFrag, Bool.and_eq_true, decide_eq_true_eq] at hv
-    rw [ser]
-    simp only [ho.tagged, Bool.false_eq_true, if_false]
-    rw [serStr_safe ho hf hv.1 hv.2 (by rw [wsp_pss]; exact h.pss) (by rw [wsp_inFlow]; exact h.inFlow), serToken_wsp]
-    simpa [layItem] using serToken_item (o := o) n h
-  | .some v, hv, s, d, h => by
+    exact leaf_item ho hf (ser_unitVariant_tok ho hf e hv.1 hv.2) (fun _ _ _ _ => by simp [layItem])
+  | .some v, hv => by
     simp only [inFrag] at hv
-    rw [ser]; simpa [layItem] using ser_item v hv s d h
-  | .newtypeStruct v, hv, s, d, h => by
+    intro s d c h
+    rw [ser]; simpa [layItem] using ser_item v hv s d c h
+  | .newtypeStruct v, hv => by
     simp only [inFrag] at hv
-    rw [ser]; simpa [layItem] using ser_item v hv s d h
-  | .newtypeVariant n v, hv, s, d, h => by
-    simp only [inFrag, Bool.and_eq_true] at hv
-    obtain ⟨s3, hc3, ho3, hl3, heq⟩ := nv_item ho hf h hv.1 v
-    have ih := ser_val v hv.2 s3 (d + 1) hc3
-    rw [hl3] at ih
-    obtain ⟨s5, he, hout, hlvb, hpost⟩ := Good.restore (s := s) (n ++ [':']) ih (by rw [ho3]; simp [List.append_assoc])
-    rw [heq, he]
-    refine ⟨_, rfl, ?_, ?_, hpost⟩
-    · rw [hout]; simp [layItem, List.append_assoc]
-    · rw [hlvb]; simp [layItem]
-  | .seq xs, hv, s, d, h => by
-    simp only [inFrag] at hv
-    rw [ser_seq]
-    obtain ⟨hq, hb1, hals1, hpsc1, hout1, hl1, hcmd1⟩ := serializeSeq_item (o := o) h
-    cases xs with
-    | nil =>
-      rw [serSeqElems_nil]
-      simpa [layItem, laySeqItem] using seq_empty_item (o := o) ho h
-    | cons x xs' =>
-      simp only [inFragList, Bool.and_eq_true] at hv
-      rw [serSeqElems, hq]
-      simp only [Bool.false_eq_true, if_false]
-      obtain ⟨hc3, hout3, hl3, hcmd3⟩ := seqElemPrefix_inline (o := o)
-        (q := { depth := d + 1, flow := false, first := true }) hb1 hals1 hpsc1 rfl
-      obtain ⟨sx, hex, houtx, hlx, hpx⟩ := ser_item x hv.1 _ (d + 1) hc3
-      rw [hex]
-      obtain ⟨q', s', he, hqf, hqd, hqfirst, hg⟩ :=
-        ser_items xs' hv.2 sx { depth := d + 1, flow := false, first := false } rfl (LineCtx.ofPost hpx) (by simp)
-      simp only [he]
-      have hfirst : q'.first = false := by simpa using hqfirst
-      have hpost : Post s s' := { toBase := hg.2.2.toBase, als := hg.2.2.als, psc := hg.2.2.psc,
-                                  cmd := by rw [hg.2.2.cmd, hpx.cmd, hcmd3, hcmd1] }
-      obtain ⟨hp, hout, hlvb⟩ := seqEnd_nonempty (o := o) hqf hfirst hpost
-      refine ⟨_, rfl, ?_, ?_, hp⟩
-      · rw [hout, hg.1, houtx, hout3, hout1, hlx, hl3, hl1]
-        simp [layItem, laySeqItem, renderLines_append, List.append_assoc]
-      · rw [hlvb]; simp [layItem, laySeqItem]
-  | .tuple xs, hv, s, d, h => by
-    simp only [inFrag] at hv
+    intro s d c h
+    rw [ser]; simpa [layItem] using ser_item v hv s d c h
+  | .seq [], _ => by
+    intro s d c h
+    simpa [layItem] using seq_item_step ho hf (xs := []) (by simp) items_nil s d c h
+  | .seq (x :: xs), hv => by
+    simp only [inFrag, inFragList, Bool.and_eq_true] at hv
+    intro s d c h
+    simpa [layItem] using seq_item_step ho hf (xs := x :: xs)
+      (by intro y hy; simp at hy; subst hy; exact ser_item x hv.1) (ser_items xs hv.2) s d c h
+  | .tuple [], _ => by
+    intro s d c h
     rw [ser_tuple]
-    obtain ⟨hq, hb1, hals1, hpsc1, hout1, hl1, hcmd1⟩ := serializeSeq_item (o := o) h
-    cases xs with
-    | nil =>
-      rw [serSeqElems_nil]
-      simpa [layItem, laySeqItem] using seq_empty_item (o := o) ho h
-    | cons x xs' =>
-      simp only [inFragList, Bool.and_eq_true] at hv
-      rw [serSeqElems, hq]
-      simp only [Bool.false_eq_true, if_false]
-      obtain ⟨hc3, hout3, hl3, hcmd3⟩ := seqElemPrefix_inline (o := o)
-        (q := { depth := d + 1, flow := false, first := true }) hb1 hals1 hpsc1 rfl
-      obtain ⟨sx, hex, houtx, hlx, hpx⟩ := ser_item x hv.1 _ (d + 1) hc3
-      rw [hex]
-      obtain ⟨q', s', he, hqf, hqd, hqfirst, hg⟩ :=
-        ser_items xs' hv.2 sx { depth := d + 1, flow := false, first := false } rfl (LineCtx.ofPost hpx) (by simp)
-      simp only [he]
-      have hfirst : q'.first = false := by simpa using hqfirst
-      have hpost : Post s s' := { toBase := hg.2.2.toBase, als := hg.2.2.als, psc := hg.2.2.psc,
-                                  cmd := by rw [hg.2.2.cmd, hpx.cmd, hcmd3, hcmd1] }
-      obtain ⟨hp, hout, hlvb⟩ := seqEnd_nonempty (o := o) hqf hfirst hpost
-      refine ⟨_, rfl, ?_, ?_, hp⟩
-      · rw [hout, hg.1, houtx, hout3, hout1, hlx, hl3, hl1]
-        simp [layItem, laySeqItem, renderLines_append, List.append_assoc]
-      · rw [hlvb]; simp [layItem, laySeqItem]
-  | .map known es, hv, s, d, h => by
+    simpa [layItem] using seq_item_step ho hf (xs := []) (by simp) items_nil s d c h
+  | .tuple (x :: xs), hv => by
+    simp only [inFrag, inFragList, Bool.and_eq_true] at hv
+    intro s d c h
+    rw [ser_tuple]
+    simpa [layItem] using seq_item_step ho hf (xs := x :: xs)
+      (by intro y hy; simp at hy; subst hy; exact ser_item x hv.1) (ser_items xs hv.2) s d c h
+  | .tupleStruct [], _ => by
+    intro s d c h
+    rw [ser_tupleStruct]
+    simpa [layItem] using seq_item_step ho hf (xs := []) (by simp) items_nil s d c h
+  | .tupleStruct (x :: xs), hv => by
+    simp only [inFrag, inFragList, Bool.and_eq_true] at hv
+    intro s d c h
+    rw [ser_tupleStruct]
+    simpa [layItem] using seq_item_step ho hf (xs := x :: xs)
+      (by intro y hy; simp at hy; subst hy; exact ser_item x hv.1) (ser_items xs hv.2) s d c h
+  | .map known [], _ => by
+    intro s d c h
+    simpa [layItem] using map_item_step ho hf known (es := []) (by simp) entries_nil s d c h
+  | .map known ((k, v) :: es), hv => by
+    simp only [inFrag, inFragEntries, Bool.and_eq_true, Bool.or_eq_true] at hv
+    intro s d c h
+    rcases hv.1.1.1 with hsk | hck
+    · obtain ⟨kt, rfl, hkt⟩ := isSafeKey_iff hsk
+      simpa [layItem] using map_item_step ho hf known (es := (.str kt, v) :: es)
+        (by intro e he; simp at he; subst he; exact ⟨⟨kt, rfl, hkt⟩, ser_val v hv.1.1.2⟩)
+        (ser_entries es hv.1.2) s d c h
+    · simpa [layItem] using map_item_step_complex ho hf known hck.1 (ser_item k hck.2) (ser_item v hv.1.1.2)
+        (ser_entries es hv.1.2) s d c h
+  | .newtypeVariant n v, hv => by
     simp only [inFrag, Bool.and_eq_true] at hv
-    rw [ser_map]
-    generalize (if known = true then some es.length else none) = len
-    cases es with
-    | nil =>
-      rw [serMapEntries_nil]
-      simpa [layItem, layMapItem] using map_empty_item (o := o) ho h len
-    | cons e es' =>
-      obtain ⟨hm1, hb1, hals1, hpsc1, hout1, hl1, hcmd1⟩ := serializeMap_item (o := o) len h
-      obtain ⟨k, v⟩ := e
-      simp only [inFragEntries, Bool.and_eq_true] at hv
-      cases k with
-      | str kt =>
-        obtain ⟨⟨⟨hk, hvv⟩, hes⟩, _⟩ := hv
-        simp only at hk
-        rw [hm1]
-        obtain ⟨s4, hc4, hout4, hl4, heq⟩ := serMapEntries_cons_inline (o := o) hf
-          (m := { depth := d + 1, flow := false, first := true, alignAfterDash := true }) v es' hk rfl rfl hb1 hals1 hpsc1
-        rw [heq]
-        obtain ⟨sv, hev, houtv, hlv, hpv⟩ := ser_val v hvv s4 (d + 1) hc4
-        rw [hev]
-        obtain ⟨m', s', he, hmf, hmfirst, hg⟩ :=
-          ser_entries es' hes
-            { sv with currentMapDepth := (serializeMap o len s).2.currentMapDepth, pendingInlineMap := false }
-            { depth := d + 1, flow := false, first := false, lastKeyComplex := false, alignAfterDash := true }
-            rfl rfl (by simp)
-            { depth := hpv.depth, inFlow := hpv.inFlow, pendingFlow := hpv.pendingFlow, pss := hpv.pss, pic := hpv.pic,
-              als := hpv.als, psc := hpv.psc }
-        simp only [he]
-        have hfirst : m'.first = false := by simpa using hmfirst
-        have hpost : Post s s' := { toBase := hg.2.2.toBase, als := hg.2.2.als, psc := hg.2.2.psc,
-                                    cmd := by rw [hg.2.2.cmd]; exact hcmd1 }
-        obtain ⟨hp, hout, hlvb⟩ := mapEnd_nonempty (o := o) hmf hfirst hpost
-        refine ⟨_, rfl, ?_, ?_, hp⟩
-        · rw [hout, hg.1]
-          simp [houtv, hout4, hout1, hlv, hl4, layItem, layMapItem, keyOf, renderLines_append, List.append_assoc]
-        · rw [hlvb]; simp [layItem, layMapItem]
-      | _ => simp at hv
-  | .tupleStruct _, hv, _, _, _ => by simp [inFrag] at hv
-  | .tupleVariant _ _, hv, _, _, _ => by simp [inFrag] at hv
-  | .structVariant _ _, hv, _, _, _ => by simp [inFrag] at hv
-  | .flowSeq _, hv, _, _, _ => by simp [inFrag] at hv
-  | .flowMap _, hv, _, _, _ => by simp [inFrag] at hv
-  | .commented _ _, hv, _, _, _ => by simp [inFrag] at hv
-  | .spaceAfter _, hv, _, _, _ => by simp [inFrag] at hv
-  | .litStr _, hv, _, _, _ => by simp [inFrag] at hv
-  | .foldStr _, hv, _, _, _ => by simp [inFrag] at hv
+    intro s d c h
+    rw [ser_newtypeVariant]
+    simpa [layItem] using variant_item_step ho hf hv.1 (P := ser o f v) (r := fun c im lvb => layVal o.indentStep o.compactListIndent im c lvb v)
+      (ser_val v hv.2) s d c h
+  | .tupleVariant n xs, hv => by
+    simp only [inFrag, Bool.and_eq_true] at hv
+    intro s d c h
+    rw [ser_tupleVariant]
+    simpa [layItem] using variant_item_step ho hf hv.1 (P := ser o f (.seq xs))
+      (r := fun c im _ => seqValOf xs.isEmpty (layItems o.indentStep o.compactListIndent (seqCol o.indentStep o.compactListIndent im c) false xs).1)
+      (seq_val_step ho hf (ser_items xs hv.2)) s d c h
+  | .structVariant n fs, hv => by
+    simp only [inFrag, Bool.and_eq_true] at hv
+    intro s d c h
+    rw [ser_structVariant]
+    simpa [layItem] using variant_item_step ho hf hv.1 (P := ser o f (.map true fs))
+      (r := fun c _ lvb => mapValOf (c + o.indentStep) lvb fs.isEmpty (layEntries o.indentStep o.compactListIndent (c + o.indentStep) false fs).1)
+      (map_val_step ho hf true (ser_entries fs hv.2.1)) s d c h
+  | .flowSeq _, hv => by simp [inFrag] at hv
+  | .flowMap _, hv => by simp [inFrag] at hv
+  | .commented _ _, hv => by simp [inFrag] at hv
+  | .spaceAfter _, hv => by simp [inFrag] at hv
+  | .litStr _, hv => by simp [inFrag] at hv
+  | .foldStr _, hv => by simp [inFrag] at hv
 /-- the items of a block sequence, each starting at a line start -/
-theorem ser_items : ∀ (xs : List SVal), inFragList o.foldedWrapCol xs = true → ∀ (s : St) (q : SeqSer),
-    q.flow = false → LineCtx s → (q.first = true → s.pendingInlineMap = false) →
-    ∃ q' s', serSeqElems o f q xs s = .ok (q', s') ∧ q'.flow = false ∧ q'.depth = q.depth ∧
-      q'.first = (q.first && xs.isEmpty) ∧ GoodLines s (layItems q.depth s.lastValueWasBlock xs) s'
-  | [], _, s, q, hq, h, _ => by
-    refine ⟨q, s, by rw [serSeqElems], hq, rfl, by simp, ?_, ?_, ?_⟩
-    · simp [layItems]
-    · simp [layItems]
-    · exact { toBase := h.toBase, als := h.als, psc := h.psc, cmd := rfl }
-  | x :: xs, hv, s, q, hq, h, hp => by
+theorem ser_items : ∀ (xs : List SVal), inFragList o.foldedWrapCol xs = true → ItemsOK o f xs
+  | [], _ => items_nil
+  | x :: xs, hv => by
     simp only [inFragList, Bool.and_eq_true] at hv
-    obtain ⟨qd, qf, qfirst⟩ := q
-    simp only at hq
-    subst hq
-    rw [serSeqElems]
-    simp only [Bool.false_eq_true, if_false]
-    obtain ⟨hc3, hout3, hl3, hcmd3⟩ := seqElemPrefix_line (o := o) (q := { depth := qd, flow := false, first := qfirst }) ho h rfl hp
-    obtain ⟨sx, hex, houtx, hlx, hpx⟩ := ser_item x hv.1 _ qd hc3
-    obtain ⟨q', s', he, hqf, hqd, hqfirst, hg⟩ :=
-      ser_items xs hv.2 sx { depth := qd, flow := false, first := false } rfl (LineCtx.ofPost hpx) (by simp)
-    refine ⟨q', s', by rw [hex]; exact he, hqf, by simpa using hqd, by simpa using hqfirst, ?_, ?_, ?_⟩
-    · rw [hg.1, houtx, hout3, hlx, hl3]
-      simp [layItems, renderLines_append, List.append_assoc]
-    · rw [hg.2.1, hlx, hl3]; simp [layItems]
-    · exact { toBase := hg.2.2.toBase, als := hg.2.2.als, psc := hg.2.2.psc,
-              cmd := by rw [hg.2.2.cmd, hpx.cmd, hcmd3] }
+    exact items_cons ho (ser_item x hv.1) (ser_items xs hv.2)
 /-- the entries of a block mapping, each starting at a line start -/
-theorem ser_entries : ∀ (es : List (SVal × SVal)), inFragEntries o.foldedWrapCol es = true → ∀ (s : St) (m : MapSer),
-    m.flow = false → m.inlineValueStart = false → (m.alignAfterDash = true → m.depth ≥ 1) → LineCtx s →
-    ∃ m' s', serMapEntries o f m es s = .ok (m', s') ∧ m'.flow = false ∧
-      m'.first = (m.first && es.isEmpty) ∧ GoodLines s (layEntries m.depth s.lastValueWasBlock es) s'
-  | [], _, s, m, hm, _, _, h => by
-    refine ⟨m, s, by rw [serMapEntries], hm, by simp, ?_, ?_, ?_⟩
-    · simp [layEntries]
-    · simp [layEntries]
-    · exact { toBase := h.toBase, als := h.als, psc := h.psc, cmd := rfl }
-  | (k, v) :: es, hv, s, m, hm, hivs, haad, h => by
-    simp only [inFragEntries, Bool.and_eq_true] at hv
-    cases k with
-    | str kt =>
-      obtain ⟨⟨hk, hvv⟩, hes⟩ := hv
-      simp only at hk
-      obtain ⟨s4, hc4, hout4, hl4, heq⟩ := serMapEntries_cons_line (o := o) ho hf v es hk hm hivs haad h
-      rw [heq]
-      obtain ⟨sv, hev, houtv, hlv, hpv⟩ := ser_val v hvv s4 m.depth hc4
-      rw [hev]
-      obtain ⟨m', s', he, hmf, hmfirst, hg⟩ :=
-        ser_entries es hes { sv with currentMapDepth := s.currentMapDepth, pendingInlineMap := false }
-          { m with first := false, lastKeyComplex := false } hm hivs haad
-          { depth := hpv.depth, inFlow := hpv.inFlow, pendingFlow := hpv.pendingFlow, pss := hpv.pss, pic := hpv.pic,
-            als := hpv.als, psc := hpv.psc }
-      refine ⟨m', s', he, hmf, by simpa using hmfirst, ?_, ?_, ?_⟩
-      · rw [hg.1]
-        simp [houtv, hout4, hlv, hl4, layEntries, keyOf, renderLines_append, List.append_assoc]
-      · rw [hg.2.1]; simp [hlv, hl4, layEntries]
-      · exact { toBase := hg.2.2.toBase, als := hg.2.2.als, psc := hg.2.2.psc, cmd := by rw [hg.2.2.cmd] }
-    | _ => simp at hv
+theorem ser_entries : ∀ (es : List (SVal × SVal)), inFragEntries o.foldedWrapCol es = true → EntriesOK o f es
+  | [], _ => entries_nil
+  | (k, v) :: es, hv => by
+    simp only [inFragEntries, Bool.and_eq_true, Bool.or_eq_true] at hv
+    rcases hv.1.1 with hsk | hck
+    · obtain ⟨kt, rfl, hkt⟩ := isSafeKey_iff hsk
+      exact entries_cons ho hf hkt (ser_val v hv.1.2) (ser_entries es hv.2)
+    · exact entries_cons_complex ho hf hck.1 (ser_item k hck.2) (ser_item v hv.1.2) (ser_entries es hv.2)
 end
 
 end
@@ -889,116 +1386,130 @@ end
 /-! ### the root -/
 
 theorem lineCtx_init : LineCtx ({} : St) :=
-  { depth := rfl, inFlow := rfl, pendingFlow := rfl, pss := rfl, pic := rfl, als := rfl, psc := rfl }
+  { inFlow := rfl, pendingFlow := rfl, pss := rfl, pic := rfl, als := rfl, psc := rfl }
 
-/-- newtype variant at the root: the label at column 0, the value in `ValCtx _ 0` -/
-theorem nv_root (ho : FragOpts o) (hf : SafeContract f) {n : List Char} (hn : isSafeStr n = true) (v : SVal) :
-    ∃ s3, ValCtx s3 0 ∧ s3.out = n ++ [':'] ∧ s3.lastValueWasBlock = false ∧
-      ser o f (.newtypeVariant n v) {} = ser o f v s3 := by
-  have := ho.yaml12
-  refine ⟨{ afterKey {} 0 (n ++ [':']) true with currentMapDepth := none }, ?_, ?_, ?_, ?_⟩
-  · constructor
-    · constructor <;> simp [afterKey]
-    all_goals simp [afterKey]
-  · simp [afterKey]
-  · simp [afterKey]
-  · rw [ser]
-    simp [indentIfLineStart, writeIndent, St.write, afterKey, plainOrQuoted_safe ho hf hn, spaces, *]
+theorem col_init : Col o ({} : St) 0 0 := by simp [Col]
 
 section
 variable (ho : FragOpts o) (hf : SafeContract f)
 include ho hf
 
+/-- a sequence at the root -/
+theorem seq_root {xs : List SVal} (hxs : ItemsOK o f xs) :
+    ∃ s', ser o f (.seq xs) {} = .ok s' ∧
+      s'.out = renderLines (if xs.isEmpty then [⟨0, "[]".toList⟩] else (layItems o.indentStep o.compactListIndent 0 false xs).1) := by
+  rw [ser_seq]
+  obtain ⟨hq, hc1, hout1, hl1, hcmd1, hpim1, hsh1⟩ := serializeSeq_line (o := o) lineCtx_init rfl
+  have hcol1 : Col o (serializeSeq o ({} : St)).2 0 0 := (col_init (o := o)).of_shift hsh1
+  cases xs with
+  | nil =>
+    rw [serSeqElems_nil]
+    refine ⟨_, rfl, ?_⟩
+    have := ho.braces; have := ho.yaml12
+    have hic := indentCols_col hcol1
+    simp [hq, seqEnd, writeIndent, hic, newline, St.write, hc1.als, hc1.psc, hout1, spaces, *]
+    split <;> simp [hout1, hic, hsh1]
+  | cons x xs' =>
+    obtain ⟨q', s', he, hqf, hqd, hqr, hqfirst, hg⟩ :=
+      hxs _ { depth := 0, flow := false, first := true } 0 rfl hc1 hcol1 (fun _ => by rw [hpim1])
+    rw [hq, he]
+    refine ⟨_, rfl, ?_⟩
+    have hfirst : q'.first = false := by simpa using hqfirst
+    have hr : q'.restoreShift = none := by simpa using hqr
+    simp [seqEnd, hr, hqf, hfirst, hg.1, hout1, hl1]
+
+/-- a mapping at the root -/
+theorem map_root (known : Bool) {es : List (SVal × SVal)} (hes : EntriesOK o f es) :
+    ∃ s', ser o f (.map known es) {} = .ok s' ∧
+      s'.out = renderLines (if es.isEmpty then [⟨0, "{}".toList⟩] else (layEntries o.indentStep o.compactListIndent 0 false es).1) := by
+  rw [ser_map]
+  generalize (if known = true then some es.length else none) = len
+  obtain ⟨hm1, hc1, hout1, hl1, hcmd1, hsh1⟩ := serializeMap_line (o := o) len lineCtx_init rfl rfl
+  have hcol1 : Col o (serializeMap o len ({} : St)).2 0 0 := (col_init (o := o)).of_shift hsh1
+  cases es with
+  | nil =>
+    rw [serMapEntries_nil]
+    refine ⟨_, rfl, ?_⟩
+    have := ho.braces; have := ho.yaml12
+    have hic := indentCols_col hcol1
+    simp [hm1, mapEnd, mapIndent, writeIndent, hic, newline, St.write, hc1.als, hc1.psc, hout1, spaces, *]
+    split <;> simp [hout1, hic, hsh1]
+  | cons e es' =>
+    obtain ⟨m', s', he, hmf, hmr, hmfirst, hg⟩ :=
+      hes _ { depth := 0, flow := false, first := true } 0 rfl rfl hc1 hcol1
+    rw [hm1, he]
+    refine ⟨_, rfl, ?_⟩
+    have hfirst : m'.first = false := by simpa using hmfirst
+    have hr : m'.restoreShift = none := by simpa using hmr
+    simp [mapEnd, hr, hmf, hfirst, hg.1, hout1, hl1]
+
+/-- `Variant: payload` at the root -/
+theorem variant_root {n : List Char} (hn : isSafeStr n = true) {P : St → Except EmitErr St}
+    {r : List Char × List Line × Bool}
+    (hP : ∀ (s3 : St), ValCtx o s3 0 0 → s3.lastValueWasBlock = false → s3.currentMapDepth = none → Good s3 r (P s3)) :
+    ∃ s', variantRun o f n P {} = .ok s' ∧ s'.out = renderLines (⟨0, n ++ [':'] ++ r.1⟩ :: r.2.1) := by
+  obtain ⟨s3, hbv, hc3, ho3, hl3, hcmd3⟩ := beginVariant_root (o := o) (f := f) ho hf hn
+  obtain ⟨s5, he, hout, _, _⟩ := hP s3 hc3 hl3 hcmd3
+  rw [variantRun, hbv]
+  simp only [he]
+  refine ⟨_, rfl, ?_⟩
+  simp only [endVariant, restoreShift_none, Bool.false_eq_true, if_false]
+  rw [hout, ho3]
+  simp [spaces, List.append_assoc]
+
 /-- The emitter invariant at the root: the state machine produces exactly the layout. -/
 theorem ser_root : ∀ (v : SVal), inFrag o.foldedWrapCol v = true →
-    ∃ s', ser o f v {} = .ok s' ∧ s'.out = renderLines (layRoot v)
-  | .unit, _ => ⟨_, by rw [ser], by simpa [layRoot, leafTok] using (serToken_line (o := o) ho "null".toList lineCtx_init).1⟩
-  | .none, _ => ⟨_, by rw [ser], by simpa [layRoot, leafTok] using (serToken_line (o := o) ho "null".toList lineCtx_init).1⟩
+    ∃ s', ser o f v {} = .ok s' ∧ s'.out = renderLines (layRoot o.indentStep o.compactListIndent v)
+  | .unit, _ => ⟨_, by rw [ser], by simpa [layRoot, leafTok] using (serToken_line (o := o) ho "null".toList lineCtx_init rfl col_init).1⟩
+  | .none, _ => ⟨_, by rw [ser], by simpa [layRoot, leafTok] using (serToken_line (o := o) ho "null".toList lineCtx_init rfl col_init).1⟩
   | .bool b, _ => ⟨_, by rw [ser], by
-      simpa [layRoot, leafTok] using (serToken_line (o := o) ho (if b then "true".toList else "false".toList) lineCtx_init).1⟩
-  | .int i, _ => ⟨_, by rw [ser], by simpa [layRoot, leafTok] using (serToken_line (o := o) ho (intText i) lineCtx_init).1⟩
+      simpa [layRoot, leafTok] using (serToken_line (o := o) ho (if b then "true".toList else "false".toList) lineCtx_init rfl col_init).1⟩
+  | .int i, _ => ⟨_, by rw [ser], by simpa [layRoot, leafTok] using (serToken_line (o := o) ho (intText i) lineCtx_init rfl col_init).1⟩
   | .str t, hv => by
     simp only [inFrag, Bool.and_eq_true, decide_eq_true_eq] at hv
-    refine ⟨_, by rw [ser, serStr_safe ho hf hv.1 hv.2 rfl rfl], ?_⟩
-    simpa [layRoot, leafTok] using (serToken_line (o := o) ho t lineCtx_init).1
+    refine ⟨_, ser_str_tok ho hf hv.1 hv.2 {} rfl rfl, ?_⟩
+    simpa [layRoot, leafTok] using (serToken_line (o := o) ho t lineCtx_init rfl col_init).1
   | .unitVariant e n, hv => by
     simp only [inFrag, Bool.and_eq_true, decide_eq_true_eq] at hv
-    refine ⟨serToken o n {}, ?_, ?_⟩
-    · rw [ser]
-      simp only [ho.tagged, Bool.false_eq_true, if_false]
-      rw [serStr_safe ho hf hv.1 hv.2 (by rw [wsp_pss]) (by rw [wsp_inFlow]), serToken_wsp]
-    · simpa [layRoot, leafTok] using (serToken_line (o := o) ho n lineCtx_init).1
+    refine ⟨_, ser_unitVariant_tok ho hf e hv.1 hv.2 {} rfl rfl, ?_⟩
+    simpa [layRoot, leafTok] using (serToken_line (o := o) ho n lineCtx_init rfl col_init).1
   | .some v, hv => by
     simp only [inFrag] at hv
     rw [ser]; simpa [layRoot] using ser_root v hv
   | .newtypeStruct v, hv => by
     simp only [inFrag] at hv
     rw [ser]; simpa [layRoot] using ser_root v hv
-  | .newtypeVariant n v, hv => by
-    simp only [inFrag, Bool.and_eq_true] at hv
-    obtain ⟨s3, hc3, ho3, hl3, heq⟩ := nv_root (o := o) (f := f) ho hf hv.1 v
-    obtain ⟨s5, he, hout, _, _⟩ := ser_val ho hf v hv.2 s3 0 hc3
-    refine ⟨s5, by rw [heq, he], ?_⟩
-    rw [hout, ho3, hl3]
-    simp [layRoot, spaces, List.append_assoc]
   | .seq xs, hv => by
     simp only [inFrag] at hv
-    rw [ser_seq]
-    obtain ⟨hq, hc1, hout1, hl1, hcmd1, hpim1⟩ := serializeSeq_line (o := o) lineCtx_init
-    cases xs with
-    | nil =>
-      rw [serSeqElems_nil]
-      refine ⟨_, rfl, ?_⟩
-      have := ho.braces; have := ho.yaml12
-      simp [hq, seqEnd, writeIndent, newline, St.write, hc1.als, hc1.psc, hout1, layRoot, spaces, *]
-      split <;> simp [hout1]
-    | cons x xs' =>
-      obtain ⟨q', s', he, hqf, hqd, hqfirst, hg⟩ :=
-        ser_items ho hf (x :: xs') hv _ { depth := 0, flow := false, first := true } rfl hc1 (fun _ => by rw [hpim1])
-      rw [hq, he]
-      refine ⟨_, rfl, ?_⟩
-      have hfirst : q'.first = false := by simpa using hqfirst
-      simp [seqEnd, hqf, hfirst, hg.1, hout1, hl1, layRoot]
+    simpa [layRoot] using seq_root ho hf (ser_items ho hf xs hv)
   | .tuple xs, hv => by
     simp only [inFrag] at hv
     rw [ser_tuple]
-    obtain ⟨hq, hc1, hout1, hl1, hcmd1, hpim1⟩ := serializeSeq_line (o := o) lineCtx_init
-    cases xs with
-    | nil =>
-      rw [serSeqElems_nil]
-      refine ⟨_, rfl, ?_⟩
-      have := ho.braces; have := ho.yaml12
-      simp [hq, seqEnd, writeIndent, newline, St.write, hc1.als, hc1.psc, hout1, layRoot, spaces, *]
-      split <;> simp [hout1]
-    | cons x xs' =>
-      obtain ⟨q', s', he, hqf, hqd, hqfirst, hg⟩ :=
-        ser_items ho hf (x :: xs') hv _ { depth := 0, flow := false, first := true } rfl hc1 (fun _ => by rw [hpim1])
-      rw [hq, he]
-      refine ⟨_, rfl, ?_⟩
-      have hfirst : q'.first = false := by simpa using hqfirst
-      simp [seqEnd, hqf, hfirst, hg.1, hout1, hl1, layRoot]
+    simpa [layRoot] using seq_root ho hf (ser_items ho hf xs hv)
+  | .tupleStruct xs, hv => by
+    simp only [inFrag] at hv
+    rw [ser_tupleStruct]
+    simpa [layRoot] using seq_root ho hf (ser_items ho hf xs hv)
   | .map known es, hv => by
     simp only [inFrag, Bool.and_eq_true] at hv
-    rw [ser_map]
-    generalize (if known = true then some es.length else none) = len
-    obtain ⟨hm1, hc1, hout1, hl1, hcmd1⟩ := serializeMap_line (o := o) len lineCtx_init rfl
-    cases es with
-    | nil =>
-      rw [serMapEntries_nil]
-      refine ⟨_, rfl, ?_⟩
-      have := ho.braces; have := ho.yaml12
-      simp [hm1, mapEnd, mapIndent, writeIndent, newline, St.write, hc1.als, hc1.psc, hout1, layRoot, spaces, *]
-      split <;> simp [hout1]
-    | cons e es' =>
-      obtain ⟨m', s', he, hmf, hmfirst, hg⟩ :=
-        ser_entries ho hf (e :: es') hv.1 _ { depth := 0, flow := false, first := true } rfl rfl (by simp) hc1
-      rw [hm1, he]
-      refine ⟨_, rfl, ?_⟩
-      have hfirst : m'.first = false := by simpa using hmfirst
-      simp [mapEnd, hmf, hfirst, hg.1, hout1, hl1, layRoot]
-  | .tupleStruct _, hv => by simp [inFrag] at hv
-  | .tupleVariant _ _, hv => by simp [inFrag] at hv
-  | .structVariant _ _, hv => by simp [inFrag] at hv
+    simpa [layRoot] using map_root ho hf known (ser_entries ho hf es hv.1)
+  | .newtypeVariant n v, hv => by
+    simp only [inFrag, Bool.and_eq_true] at hv
+    rw [ser_newtypeVariant]
+    simpa [layRoot] using variant_root ho hf hv.1 (P := ser o f v) (r := layVal o.indentStep o.compactListIndent false 0 false v)
+      (fun s3 h3 hl3 hc3 => by simpa [hl3, hc3] using ser_val ho hf v hv.2 s3 0 0 h3)
+  | .tupleVariant n xs, hv => by
+    simp only [inFrag, Bool.and_eq_true] at hv
+    rw [ser_tupleVariant]
+    simpa [layRoot] using variant_root ho hf hv.1 (P := ser o f (.seq xs))
+      (r := seqValOf xs.isEmpty (layItems o.indentStep o.compactListIndent o.indentStep false xs).1)
+      (fun s3 h3 _ hc3 => by simpa [hc3, seqCol] using seq_val_step ho hf (ser_items ho hf xs hv.2) s3 0 0 h3)
+  | .structVariant n fs, hv => by
+    simp only [inFrag, Bool.and_eq_true] at hv
+    rw [ser_structVariant]
+    simpa [layRoot] using variant_root ho hf hv.1 (P := ser o f (.map true fs))
+      (r := mapValOf o.indentStep false fs.isEmpty (layEntries o.indentStep o.compactListIndent o.indentStep false fs).1)
+      (fun s3 h3 hl3 _ => by simpa [hl3] using map_val_step ho hf true (ser_entries ho hf fs hv.2.1) s3 0 0 h3)
   | .flowSeq _, hv => by simp [inFrag] at hv
   | .flowMap _, hv => by simp [inFrag] at hv
   | .commented _ _, hv => by simp [inFrag] at hv
@@ -1008,10 +1519,12 @@ theorem ser_root : ∀ (v : SVal), inFrag o.foldedWrapCol v = true →
 
 /-- `to_string_with_options` on the fragment = the rendered layout -/
 theorem emit_eq_layout (v : SVal) (hv : inFrag o.foldedWrapCol v = true) :
-    emit o f v = .ok (renderLines (layRoot v)) := by
+    emit o f v = .ok (renderLines (layRoot o.indentStep o.compactListIndent v)) := by
   obtain ⟨s', he, hout⟩ := ser_root ho hf v hv
-  simp [emit, ho.indent, he, hout]
+  have hne : (o.indentStep == 0) = false := by have := ho.indent; simp; omega
+  simp [emit, hne, he, hout]
 
 end
+
 
 end SaphyrVerif.Emit
